@@ -1,4 +1,5 @@
 """C08 — circuit-level constructions: inverse, controlled circuit, gate layers, ancillas."""
+import copy
 import warnings
 from fractions import Fraction
 
@@ -11,9 +12,21 @@ RULE = ("seeded random circuits (n<=4 quick / <=5 thorough; built-in gates at ra
         "qubit tuples, declared widths with idle qubits) under inverse / every control position 0..n / ancillas, random "
         "modifier chains for the per-gate dagger+controlled rules, and builder calls over unordered qubit collections "
         "with duplicates, 0..3-parameter factories, list/tuple/set/range/numpy inputs, layers up to 300 qubits, plus a "
-        "malformed stream (row-count mismatch, repeated / out-of-range qubits, empty circuits).  non-trivial: circuit "
+        "malformed stream (row-count mismatch, repeated / out-of-range qubits, empty circuits).  Hardening streams: tiny "
+        "angles (1e-3..1e-9), near-equal sibling angles (relative 2e-6), equal parameters, custom matrices scaled by 2^-40 / "
+        "2^30 / with spread entries, repeated and near-equal adjacent operations, circuits built by += / concatenation, numpy "
+        "control indices; SESSIONS on long-lived circuit objects (call twice, other argument, sibling circuit differing in one "
+        "component incl. a same-named custom gate with another matrix, after mutating the previous result, after replacing / "
+        "appending an operation of the source in place, inverse of the last result); BUILDER SESSIONS on one long-lived base "
+        "circuit / qubit list / row table (same call again, permuted qubits, added duplicate, one changed / near-equal row, "
+        "other factory, bound parametric or wrapped fixed gates, after mutating the result or the base); builder shapes "
+        "(sorted-contiguous, descending, single, 9..80 qubits, wide declared bases, range/frozenset/ndarray/dict-keys inputs, "
+        "int/sympy/tuple rows, zero / equal / near-equal / -1,-2 / huge rows); SYMBOLIC circuits (free symbols, sympy and int "
+        "numbers as parameters, parametric custom gates) evaluated through gate.matrix.subs and through bind; WIDE circuits "
+        "(qubit indices up to 60) judged on the touched qubits.  non-trivial: circuit "
         "case with >=2 ops containing a wrapped or parametric gate; gate case with a chain of >=2 modifiers; builder "
-        "case with duplicates or disorder in the collection, or a layer with >=2 rows; distinct = distinct canonical JSON")
+        "case with duplicates or disorder in the collection, or a layer with >=2 rows; session with >=3 calls; symbolic case with "
+        ">=2 ops; distinct = distinct canonical JSON")
 TRUSTED = [
     "CPython: iterating set(qubit_indices) yields every distinct element exactly once (hypothesis of applyGate_count*), "
     "and set(range(n)) iterates in ascending order (hypothesis of layer_rows / layer_fixed; re-checked here for n<=300)",
@@ -22,7 +35,11 @@ TRUSTED = [
     "the executable embedding Lift.liftMatrix / Lift.toUnitary used by the driver is identified with Spec.lift by property C01 "
     "(not re-proved here); the theorems are over the spec semantics (opDen = Spec.lift, theorem opDen_is_spec_lift)",
     "floating point: theorems are over exact commutative star rings; the Python double computation is compared with the "
-    "exact ℚ(ζ₈) model at tolerance 1e-8 on entries, parameters of builder rows are dyadic so their comparison is exact",
+    "exact ℚ(ζ₈) model at tolerance 1e-8 on entries (relative to the largest entry, floored at the product of the gates' "
+    "largest entries capped at 1, so uniformly tiny matrices are compared at their own scale), the oracle compares "
+    "double computations with each other at 1e-10; parameters of builder rows are dyadic so their comparison is exact",
+    "the oracle's own embedding (harness/circ.py embed_reference, bit manipulation, qubit 0 = most significant bit) and, for "
+    "circuits wider than 7 qubits, the order-preserving relabelling of the touched qubits (idle qubits carry the identity)",
     "driver glue for the externals at ℚ(ζ₈): exp only of nilpotent matrices (finite series), integer powers by products / "
     "Gauss-Jordan inverse; it is itself exercised by the matrix comparison",
 ]
@@ -30,11 +47,16 @@ ASSUMPTIONS = [
     "every operation names at least one qubit (GateOperation with an empty index tuple is outside the model)",
     "fractional exponents under Power are excluded from the inverse / controlled clauses and from the generator: "
     "F16 (Power.dagger is not the adjoint of a fractional power) is a known finding owned by C07",
-    "numeric parameters only (symbolic parameters are covered by the ring-generic theorems, not by the correspondence)",
+    "the model correspondence uses numeric parameters only (symbolic parameters are covered by the ring-generic theorems); "
+    "symbolic circuits are checked by the oracle at real values of the symbols",
+    "in-place edits of the public live list Circuit.operations (replace / append within the width) count as building another "
+    "circuit: every call is judged against the state of its arguments at the time of the call",
     "Circuit.controlled builds Circuit(c_ops) without n_qubits, so idle top qubits of the original are dropped from the "
     "width of the result; the action statement is proved at every sufficient width",
 ]
-TOL = 1e-8
+TOL = 1e-8       # model (exact) vs implementation (double)
+OTOL = 1e-10     # oracle: implementation vs implementation
+WIDE = 7         # widest register the oracle materialises
 
 
 # ----------------------------------------------------------------------------------------------- helpers
@@ -111,20 +133,38 @@ def mnp(j):
     import numpy as np
     if isinstance(j, str):
         return j
+    if not j:
+        return np.zeros((0, 0), dtype=complex)
     return np.array([[complex(a, b) for a, b in row] for row in j])
 
 
-def close(a, b, tol=TOL):
-    """entrywise agreement within tol relative to the largest entry (non-unitary custom gates make large entries);
-    two rejections agree, a rejection never agrees with a matrix"""
+def _amax(a):
+    import numpy as np
+    return float(np.max(np.abs(a))) if a.size else 0.0
+
+
+def close(a, b, tol=TOL, floor=1.0):
+    """entrywise agreement within tol relative to the largest entry, the scale never taken below `floor`
+    (non-unitary custom gates make large entries; uniformly tiny matrices are passed a small floor).
+    Two rejections agree, a rejection never agrees with a matrix"""
     import numpy as np
     if isinstance(a, str) or isinstance(b, str):
         return isinstance(a, str) and isinstance(b, str)
     a, b = np.asarray(a), np.asarray(b)
     if a.shape != b.shape:
         return False
-    scale = max(1.0, float(np.max(np.abs(a))) if a.size else 1.0, float(np.max(np.abs(b))) if b.size else 1.0)
+    scale = max(floor, _amax(a), _amax(b))
     return bool(np.all(np.abs(a - b) <= tol * scale))
+
+
+def floor_of(ms):
+    """scale below which entries of a product of the given gate matrices are rounding noise:
+    the product of the gates' largest entries, capped at 1"""
+    p = 1.0
+    for m in ms:
+        if not isinstance(m, str):
+            p *= _amax(m)
+    return min(1.0, p) if p > 0 else 1.0
 
 
 def spec_has(spec, key):
@@ -143,12 +183,28 @@ def spec_depth(spec):
     return 0
 
 
+def spec_innermost(spec):
+    for k in ("controlled", "dagger", "power", "exp"):
+        if k in spec:
+            return spec_innermost(spec[k])
+    return spec
+
+
 def spec_parametric(spec):
     if "gate" in spec:
         return circ.BUILTIN_PARAMS[spec["gate"]] > 0
     for k in ("controlled", "dagger", "power", "exp"):
         if k in spec:
             return spec_parametric(spec[k])
+    return False
+
+
+def spec_has_fractional(spec):
+    if "power" in spec:
+        return unrat(spec["e"]).denominator != 1 or spec_has_fractional(spec["power"])
+    for k in ("controlled", "dagger", "exp"):
+        if k in spec:
+            return spec_has_fractional(spec[k])
     return False
 
 
@@ -179,11 +235,57 @@ def nilpotent_matrix(rng, k):
     return [[base[perm[i]][perm[j]] for j in range(d)] for i in range(d)]
 
 
+def _point(t):
+    """rational point (cos θ/2, sin θ/2) for tan θ/4 = t"""
+    t = Fraction(t)
+    return [rat((1 - t * t) / (1 + t * t)), rat(2 * t / (1 + t * t))]
+
+
+def tiny_angle(rng):
+    """θ ≈ 4·j·10^-k: too large to be rounding noise, small enough for a tolerant comparison to call it 0"""
+    k = rng.choice([3, 5, 6, 7, 9])
+    return _point(Fraction(rng.choice([-1, 1]) * rng.randrange(1, 10), 10 ** k))
+
+
+def near_angle(angle, tight=False):
+    """sibling of an angle: relative distance 2e-6 (equal for np.isclose / allclose at their defaults), or with tight=True
+    absolute distance 4e-9 (equal for the library's own gate __eq__, absolute 1e-8 on parameters); never equal as a gate"""
+    ch, sh = unrat(angle[0]), unrat(angle[1])
+    if ch == -1:
+        return _point(Fraction(2 ** 19 + 1, 2 ** 19))
+    t = sh / (1 + ch)
+    if tight:
+        return _point(t + (1 + t * t) * Fraction(1, 10 ** 9))
+    if t == 0:
+        return _point(Fraction(1, 2 ** 19))
+    return _point(t * Fraction(2 ** 19 + 1, 2 ** 19))
+
+
+def scaled_matrix(m, f):
+    return [[[rat(unrat(e[0]) * f), rat(unrat(e[1]) * f)] for e in row] for row in m]
+
+
 def base_spec(rng, arity, allow_custom=True):
     if allow_custom and rng.random() < 0.35:
-        return {"custom": _fresh("cg"), "m": circ.gauss_matrix(rng, arity, -2, 2)}
+        m = circ.gauss_matrix(rng, arity, -2, 2)
+        u = rng.random()
+        if u < 0.14:
+            m = scaled_matrix(m, Fraction(1, 2 ** 40))       # uniformly tiny: every entry below 1e-8
+        elif u < 0.20:
+            m = scaled_matrix(m, Fraction(2 ** 30))
+        elif u < 0.26:                                        # entries spanning > 1e8
+            m = [[[rat(unrat(e[0]) * Fraction(2) ** rng.choice([-30, 0, 0, 30])), rat(unrat(e[1]))] for e in row] for row in m]
+        return {"custom": _fresh("cg"), "m": m}
     names = [n for n, q in circ.BUILTIN_QUBITS.items() if q == arity and n != "Delay"]
-    return circ.random_builtin_spec(rng, names)
+    spec = circ.random_builtin_spec(rng, names)
+    a = spec["angles"]
+    if a:
+        u = rng.random()
+        if u < 0.15:
+            a[rng.randrange(len(a))] = tiny_angle(rng)
+        elif u < 0.27 and len(a) >= 2:
+            spec["angles"] = [a[0] for _ in a]                # MS(t, t), U3(t, t, t)
+    return spec
 
 
 def gate_spec(rng, total, model=True, depth=None):
@@ -232,13 +334,132 @@ def _invertible(spec):
     return False
 
 
-def circuit_spec(rng, n, length, model=True, declared=None):
+def circuit_spec(rng, n, length, model=True, declared=None, shapes=True):
     ops = []
     for _ in range(length):
         total = rng.choice([1, 1, 2, 2, 3]) if n >= 3 else rng.randrange(1, n + 1)
         total = min(total, n)
         ops.append({"g": gate_spec(rng, total, model), "qs": rng.sample(range(n), total)})
+    if shapes and ops and rng.random() < 0.18:                # one operation repeated: exact copies and near-equal siblings
+        first = ops[0]
+        if rng.random() < 0.7 and len(first["qs"]) <= 2:      # mostly a parametric built-in: that is where "equal" is a matter of tolerance
+            names = [nm for nm, q in circ.BUILTIN_QUBITS.items() if q == len(first["qs"]) and circ.BUILTIN_PARAMS[nm] and nm != "Delay"]
+            first = {"g": circ.random_builtin_spec(rng, names), "qs": first["qs"]}
+        ops = [copy.deepcopy(first) for _ in range(rng.choice([2, 2, 3]))]
+        inner = spec_innermost(ops[-1]["g"])
+        if "gate" in inner and inner["angles"] and rng.random() < 0.8:
+            inner["angles"][0] = near_angle(inner["angles"][0], rng.random() < 0.6)
+        return {"n": declared, "ops": ops}
+    if shapes and ops and rng.random() < 0.3:
+        i = rng.randrange(len(ops))
+        twin = copy.deepcopy(ops[i])                          # the same operation again, right after the first
+        inner = spec_innermost(twin["g"])
+        if "gate" in inner and inner["angles"] and rng.random() < 0.6:
+            inner["angles"][0] = near_angle(inner["angles"][0], rng.random() < 0.5)    # … or its near-equal sibling
+        ops.insert(i + 1, twin)
     return {"n": declared, "ops": ops}
+
+
+def spec_width(cs):
+    return cs["n"] or (max([q for o in cs["ops"] for q in o["qs"]], default=-1) + 1)
+
+
+def build_mode(rng, cs):
+    """how the REAL circuit object is put together; += and concatenation only where they give the constructor's width"""
+    need = max([q for o in cs["ops"] for q in o["qs"]], default=-1) + 1
+    if cs["n"] is not None and cs["n"] < need:
+        return "ctor"
+    return rng.choice(["ctor", "ctor", "iadd", "concat"])
+
+
+def sibling_circuit(rng, cs):
+    """copy of a circuit spec that differs from it in exactly one component"""
+    cs2 = copy.deepcopy(cs)
+    ops = cs2["ops"]
+    cands = []
+    for i, o in enumerate(ops):
+        inner = spec_innermost(o["g"])
+        if "custom" in inner:
+            cands.append(("matrix", i))
+        if "gate" in inner and inner["angles"]:
+            cands.append(("angle", i))
+        if len(o["qs"]) >= 2:
+            cands.append(("qorder", i))
+        if spec_has(o["g"], "power"):
+            cands.append(("exponent", i))
+        cands.append(("dagger", i))
+    cands.append(("width", None))
+    strong = [x for x in cands if x[0] in ("matrix", "angle")]
+    how, i = rng.choice(strong if strong and rng.random() < 0.6 else cands)
+    if how == "matrix":                                      # another definition under the SAME name
+        inner = spec_innermost(ops[i]["g"])
+        inner["m"] = scaled_matrix(inner["m"], Fraction(rng.choice([2, -1, 3])))
+    elif how == "angle":
+        inner = spec_innermost(ops[i]["g"])
+        a = inner["angles"][0]
+        inner["angles"][0] = rng.choice([near_angle(a), near_angle(a, True), [a[0], rat(-unrat(a[1]))], circ.rat_angle(rng)])
+    elif how == "qorder":
+        ops[i]["qs"] = ops[i]["qs"][1:] + ops[i]["qs"][:1]
+    elif how == "exponent":
+        s = ops[i]["g"]
+        while "power" not in s:
+            s = s[[k for k in ("controlled", "dagger", "exp") if k in s][0]]
+        e = int(unrat(s["e"]))
+        s["e"] = e + 1 if e > 0 else (e - 1 if e < 0 else 2)
+    elif how == "dagger":
+        ops[i]["g"] = {"dagger": ops[i]["g"]}
+    else:
+        cs2["n"] = spec_width(cs) + 1
+    return cs2, how
+
+
+def _other_arg(rng, st, width):
+    st = dict(st)
+    if st["op"] == "controlled":
+        st["ci"] = rng.choice([k for k in range(width + 1) if k != st["ci"]])
+    elif st["op"] == "ancilla":
+        st["k"] = rng.choice([k for k in (0, 1, 2, 3) if k != st["k"]])
+    else:
+        st["on"] = "last"                                   # the inverse of the inverse just handed out
+    return st
+
+
+def session_case(rng):
+    n = rng.choice([1, 2, 2, 3, 3])
+    model = rng.random() < 0.85
+    cs = circuit_spec(rng, n, rng.choice([1, 2, 3, 4]), model, rng.choice([None, None, n, n + 1]))
+    if rng.random() < 0.5:                                   # make sure a custom gate is there (its name is what a cache would key on)
+        o = rng.choice(cs["ops"])
+        if len(o["qs"]) <= 2:
+            o["g"] = {"custom": _fresh("cg"), "m": circ.gauss_matrix(rng, len(o["qs"]), -2, 2)}
+    sib, how = sibling_circuit(rng, cs)
+    w0, w1 = spec_width(cs), spec_width(sib)
+    kinds = ["controlled", rng.choice(["inverse", "ancilla"])]
+    rng.shuffle(kinds)
+
+    def api(kind, on, width):
+        if kind == "inverse":
+            return {"op": "inverse", "on": on}
+        if kind == "controlled":
+            return {"op": "controlled", "on": on, "ci": rng.randrange(0, width + 1)}
+        return {"op": "ancilla", "on": on, "k": rng.choice([0, 1, 1, 2])}
+
+    a0, b0 = api(kinds[0], 0, w0), api(kinds[1], 0, w0)
+    steps = [a0]
+    if rng.random() < 0.6:
+        steps.append({"op": "touch", "how": rng.choice(["append", "pop", "reverse"])})
+    steps += [dict(a0), _other_arg(rng, a0, w0), dict(a0, on=1), b0, dict(b0, on=1)]
+    i = rng.randrange(len(cs["ops"]))
+    arity = len(cs["ops"][i]["qs"])
+    if rng.random() < 0.6:
+        steps.append({"op": "replace", "on": 0, "i": i, "g": gate_spec(rng, arity, model)})
+    else:
+        k = rng.randrange(1, min(2, w0) + 1)
+        steps.append({"op": "append", "on": 0, "g": gate_spec(rng, k, model), "qs": rng.sample(range(w0), k)})
+    steps += [dict(a0), dict(b0)]
+    if rng.random() < 0.5:
+        steps.append({"op": rng.choice(["inverse", "controlled"]), "on": "last", "ci": rng.randrange(0, 3)})
+    return {"kind": "session", "circs": [cs, sib], "sibling": how, "build": build_mode(rng, cs), "steps": steps, "model": model}
 
 
 FACTORIES = {
@@ -261,33 +482,288 @@ def _collection(rng, maxq, size):
     return qs
 
 
+def _shaped_collection(rng):
+    """the shapes a fast path would single out"""
+    shape = rng.choice(["contiguous", "descending", "single", "big", "bigdup", "zero-first", "sorted-gaps"])
+    if shape == "contiguous":
+        a = rng.choice([0, 0, 1, 7, 95])
+        return list(range(a, a + rng.randrange(2, 12))), shape
+    if shape == "descending":
+        a = rng.choice([0, 3, 9])
+        return list(range(a + rng.randrange(2, 12), a - 1, -1)), shape
+    if shape == "single":
+        return [rng.choice([0, 0, 1, 10, 63, 64])], shape
+    if shape in ("big", "bigdup"):
+        qs = rng.sample(range(0, 200), rng.choice([9, 13, 17, 64, 65, 80]))
+        if shape == "bigdup":
+            qs += [rng.choice(qs) for _ in range(rng.randrange(1, 4))]
+            rng.shuffle(qs)
+        return qs, shape
+    if shape == "zero-first":
+        return [0] + rng.sample(range(1, 30), rng.randrange(0, 5)), shape
+    return sorted(rng.sample(range(0, 120), rng.randrange(2, 9))), shape
+
+
+def _shaped_rows(rng, npar, nrows):
+    """parameter tables a shortcut would single out: all rows equal, two equal, near-equal, zeros, -1/-2, huge"""
+    if npar == 0 or nrows == 0:
+        return [[] for _ in range(nrows)], "plain"
+    shape = rng.choice(["equal", "two-equal", "near", "near-abs", "zeros", "minus", "huge", "ints"])
+    rows = [[_dyadic(rng) for _ in range(npar)] for _ in range(nrows)]
+    if shape == "equal":
+        rows = [list(rows[0]) for _ in range(nrows)]
+    elif shape == "two-equal" and nrows >= 2:
+        i, j = rng.sample(range(nrows), 2)
+        rows[j] = list(rows[i])
+    elif shape == "near":                                    # rows[0]·(1 + 2^-19) etc.: equal for allclose, not equal
+        base = [rat(Fraction(rng.randrange(1, 64))) for _ in range(npar)]
+        rows = [[rat(unrat(x) * (1 + Fraction(i, 2 ** 19))) for x in base] for i in range(nrows)]
+    elif shape == "near-abs":                                # absolute distance 4e-9: equal for the gates' own __eq__
+        base = [_dyadic(rng) for _ in range(npar)]
+        rows = [[rat(unrat(x) + Fraction(i, 2 ** 28)) for x in base] for i in range(nrows)]
+    elif shape == "zeros":
+        rows = [[0 if rng.random() < 0.7 else x for x in r] for r in rows]
+        rows[rng.randrange(nrows)] = [0] * npar
+    elif shape == "minus":                                   # hash(-1) == hash(-2)
+        rows = [[rng.choice([-1, -2]) for _ in range(npar)] for _ in range(nrows)]
+    elif shape == "huge":
+        rows = [[rat(unrat(x) + rng.choice([2 ** 40, -2 ** 40, 2 ** 46])) for x in r] for r in rows]
+    elif shape == "ints":
+        rows = [[rng.randrange(-9, 10) for _ in range(npar)] for _ in range(nrows)]
+    return rows, shape
+
+
+def _fixed_gate(rng):
+    """a one-qubit gate OBJECT handed to the builders instead of a factory: bound parametric, wrapped, custom"""
+    u = rng.random()
+    if u < 0.5:
+        name = rng.choice(["RX", "RY", "RZ", "PHASE", "U3", "GPi2"])
+        return {"gate": name, "angles": [circ.rat_angle(rng) for _ in range(circ.BUILTIN_PARAMS[name])]}
+    if u < 0.7:
+        return {"dagger": {"gate": rng.choice(["S", "T", "SX"]), "angles": []}}
+    if u < 0.85:
+        return {"power": {"gate": rng.choice(["S", "T", "H"]), "angles": []}, "e": rng.choice([2, 3, -1])}
+    return {"custom": rng.choice(["cgfix", _fresh("cgfix")]), "m": circ.gauss_matrix(rng, 1, -2, 2)}
+
+
+INPUTS = ["list", "list", "tuple", "set", "frozenset", "ndarray", "dict", "range"]
+
+
+def _input_kind(rng, qs):
+    k = rng.choice(INPUTS)
+    if k == "range" and not (len(qs) >= 1 and qs == list(range(qs[0], qs[0] + len(qs)))):
+        k = "list"
+    if k == "dict" and len(set(qs)) != len(qs):
+        k = "tuple"                                          # the keys of a dict cannot repeat
+    return k
+
+
+def _old_ops(rng, width):
+    old = [{"name": rng.choice(["H", "X", "CNOT"]), "qs": None} for _ in range(rng.randrange(0, 3))]
+    for o in old:
+        o["qs"] = rng.sample(range(width), 2 if o["name"] == "CNOT" else 1)
+    return old
+
+
+def apply_case(rng, shaped):
+    npar = rng.choice([0, 0, 1, 1, 1, 2, 3, 3])
+    if shaped and rng.random() < 0.25:
+        npar = 0
+    fac = rng.choice(FACTORIES[npar])
+    if shaped:
+        qs, _ = _shaped_collection(rng)
+    else:
+        qs = _collection(rng, rng.choice([3, 6, 12, 40, 200]), rng.randrange(0, 7))
+    distinct = len(set(qs))
+    c = {"kind": "apply", "old": _old_ops(rng, 4), "old_n": rng.choice([None, None, 6, 6, 50, 250] if shaped else [None, None, 6]),
+         "qs": qs, "input": _input_kind(rng, qs) if shaped else rng.choice(["list", "list", "tuple", "set"]),
+         "factory": fac, "rows": None, "numpy_rows": False}
+    if shaped and qs and rng.random() < 0.6:                  # a base declared wider than everything that is added
+        c["old_n"] = max(qs) + rng.choice([1, 2, 5, 40])
+    use_rows = npar > 0 or (fac == "cg0" and rng.random() < 0.5)
+    if use_rows:
+        nrows = distinct
+        if rng.random() < 0.12:
+            nrows = max(0, distinct + rng.choice([-1, 1]))  # malformed: row-count mismatch
+        if shaped and rng.random() < 0.7:
+            c["rows"], _ = _shaped_rows(rng, npar, nrows)
+        else:
+            c["rows"] = [[_dyadic(rng) for _ in range(npar)] for _ in range(nrows)]
+        if npar > 0:
+            c["ptype"] = rng.choice(["float", "float", "np", "int", "sympy", "tuple"] if shaped else ["float"] * 4 + ["np"])
+            c["numpy_rows"] = c["ptype"] == "np"
+    elif shaped and rng.random() < 0.6:
+        c["fixed"] = _fixed_gate(rng)
+        c["factory"] = "fixed"
+    return c
+
+
+def layer_case(rng, n, shaped):
+    npar = rng.choice([0, 1, 1, 2, 3])
+    if shaped and rng.random() < 0.3:
+        npar = 0
+    fac = rng.choice(FACTORIES[npar])
+    c = {"kind": "layer", "n": n, "factory": fac, "rows": None, "numpy_rows": False}
+    use_rows = npar > 0 or (fac == "cg0" and rng.random() < 0.5)
+    if use_rows:
+        nrows = n
+        if shaped and rng.random() < 0.2:
+            nrows = max(0, n + rng.choice([-1, 1]))          # malformed: row-count mismatch
+        if shaped and rng.random() < 0.7:
+            c["rows"], _ = _shaped_rows(rng, npar, nrows)
+        else:
+            c["rows"] = [[_dyadic(rng) for _ in range(npar)] for _ in range(nrows)]
+        if npar > 0:
+            c["ptype"] = rng.choice(["float", "float", "np", "int", "sympy", "tuple"] if shaped else ["float"] * 4 + ["np"])
+            c["numpy_rows"] = c["ptype"] == "np"
+    elif shaped and rng.random() < 0.6:
+        c["fixed"] = _fixed_gate(rng)
+        c["factory"] = "fixed"
+    return c
+
+
+def _builder_sibling(rng, st):
+    """the previous builder call with exactly one component changed"""
+    st = copy.deepcopy(st)
+    opts = ["again", "again"]
+    if st["op"] == "apply" and len(st["qs"]) >= 2:
+        opts += ["permute", "permute"]
+    if st["op"] == "apply" and st["qs"] and st["input"] in ("list", "tuple", "ndarray") and st["rows"] is None:
+        opts += ["dup"]
+    if st["rows"] and st["rows"][0]:
+        opts += ["row", "row", "near-row", "factory"]
+    if st.get("fixed") is not None:
+        opts += ["fixed"] * 6
+    if st["op"] == "layer" and st["rows"] is None:
+        opts += ["n"]
+    how = rng.choice(opts)
+    if how == "permute":
+        qs = list(st["qs"])
+        while qs == st["qs"] and len(set(qs)) > 1:
+            rng.shuffle(qs)
+        st["qs"] = qs
+        if st["input"] == "range":
+            st["input"] = "list"
+    elif how == "dup":
+        st["qs"] = st["qs"] + [rng.choice(st["qs"])]
+    elif how == "row":
+        i, j = rng.randrange(len(st["rows"])), rng.randrange(len(st["rows"][0]))
+        st["rows"][i][j] = rat(unrat(st["rows"][i][j]) + rng.choice([1, -1, Fraction(1, 2)]))
+    elif how == "near-row":
+        i, j = rng.randrange(len(st["rows"])), rng.randrange(len(st["rows"][0]))
+        x = unrat(st["rows"][i][j])
+        st["rows"][i][j] = rat(x + Fraction(1, 2 ** 28)) if rng.random() < 0.5 or not x else rat(x * (1 + Fraction(1, 2 ** 19)))
+        if st.get("ptype") == "int":
+            st["ptype"] = "float"
+    elif how == "factory":
+        npar = len(st["rows"][0])
+        st["factory"] = rng.choice([f for f in FACTORIES[npar]])
+    elif how == "fixed":                                     # same class of gate, same NAME, another parameter / matrix / exponent
+        f = st["fixed"]
+        inner = spec_innermost(f)
+        if "gate" in inner and inner["angles"]:
+            a = inner["angles"][0]
+            inner["angles"][0] = rng.choice([near_angle(a), near_angle(a, True), [a[0], rat(-unrat(a[1]))], circ.rat_angle(rng)])
+        elif "custom" in inner:
+            inner["m"] = scaled_matrix(inner["m"], Fraction(2))
+        elif "power" in f:
+            f["e"] = int(unrat(f["e"])) + 1
+        else:
+            st["fixed"] = {"dagger": {"gate": rng.choice(["S", "T", "SX"]), "angles": []}}
+    elif how == "n":
+        st["n"] = st["n"] + rng.choice([1, -1]) if st["n"] > 0 else 1
+    st["how"] = how
+    return st
+
+
+def bsession_case(rng):
+    width = rng.choice([4, 6, 30])
+    old = _old_ops(rng, 4)
+    steps = []
+    while True:
+        first = apply_case(rng, True) if rng.random() < 0.55 else layer_case(rng, rng.choice([1, 2, 3, 5, 9, 12]), True)
+        if first["rows"] is None or len(first["rows"]) == (first["n"] if first["kind"] == "layer" else len(set(first["qs"]))):
+            break
+    if first["kind"] == "apply" and first["qs"] and rng.random() < 0.5:
+        width = max(first["qs"]) + rng.choice([1, 3, 30])
+    st = {k: v for k, v in first.items() if k not in ("kind", "old", "old_n")}
+    st["op"] = first["kind"]
+    steps.append(st)
+    for _ in range(rng.randrange(4, 8)):
+        u = rng.random()
+        if u < 0.2:
+            steps.append({"op": "touch"})
+        elif u < 0.32:
+            steps.append({"op": "append_base", "name": rng.choice(["H", "X"]), "q": rng.randrange(0, 4)})
+        last = [s for s in steps if s["op"] in ("apply", "layer")][-1]
+        steps.append(_builder_sibling(rng, last))
+    return {"kind": "bsession", "old": old, "old_n": width, "steps": steps}
+
+
+SYM_EXPRS = ["a", "b", "c", "-a", "2*a+b", "a*b", "a/2-c", "a+pi/4", "b-c", "pi/3", "1/3", "2", "py:2", "py:0.375"]
+SYM_1Q = ["RX", "RY", "RZ", "PHASE", "RH", "GPi", "GPi2"]      # U3 simplifies its symbolic matrix: 0.3 s per evaluation, corpus only
+SYM_2Q = ["CPHASE", "XX", "YY", "ZZ", "XY", "MS"]
+
+
+def sym_gate_spec(rng, total, depth=None):
+    if depth is None:
+        depth = rng.choice([0, 0, 0, 1, 1, 2])
+    if depth > 0:
+        if total >= 2 and rng.random() < 0.5:
+            return {"controlled": sym_gate_spec(rng, total - 1, depth - 1), "k": 1}
+        return {"dagger": sym_gate_spec(rng, total, depth - 1)}
+    u = rng.random()
+    if total == 1 and u < 0.2:
+        return {"scustom": "cgs", "exprs": [rng.choice(SYM_EXPRS) for _ in range(2)]}
+    if u < 0.4:
+        return {"num": gate_spec(rng, total, False, depth=rng.choice([0, 0, 1]))}
+    name = rng.choice(SYM_1Q if total == 1 else SYM_2Q)
+    return {"sgate": name, "exprs": [rng.choice(SYM_EXPRS) for _ in range(circ.BUILTIN_PARAMS[name])]}
+
+
+def symb_case(rng):
+    n = rng.choice([1, 2, 2, 3])
+    ops = []
+    for _ in range(rng.choice([1, 2, 3, 4])):
+        total = min(n, rng.choice([1, 1, 2]))
+        ops.append({"g": sym_gate_spec(rng, total), "qs": rng.sample(range(n), total)})
+    if len(ops) >= 2 and rng.random() < 0.3:                 # two adjacent numeric gates between symbolic ones
+        i = rng.randrange(len(ops))
+        for j in (i, min(i + 1, len(ops) - 1)):
+            ops[j]["g"] = {"num": gate_spec(rng, len(ops[j]["qs"]), False, depth=0)}
+    return {"kind": "symb", "n": rng.choice([None, None, n, n + 1]), "ops": ops, "ci": rng.randrange(0, n + 2),
+            "k": rng.choice([0, 1, 2]), "build": rng.choice(["ctor", "iadd"]),
+            "vals": {s: _dyadic(rng) for s in ("a", "b", "c")}}
+
+
+def wide_case(rng):
+    top = rng.choice([11, 12, 20, 40, 60])
+    used = sorted(rng.sample(range(top + 1), rng.choice([2, 3, 3, 4])))
+    ops = []
+    for _ in range(rng.choice([1, 2, 3, 4])):
+        total = rng.choice([1, 1, 2, 2, 3])
+        total = min(total, len(used))
+        ops.append({"g": gate_spec(rng, total, True), "qs": rng.sample(used, total)})
+    declared = rng.choice([None, None, top + 1, top + 3])
+    cs = {"n": declared, "ops": ops}
+    w = spec_width(cs)
+    ci = rng.choice([0, 1, 9, 10, 11, w - 1, w, rng.randrange(0, w + 1)])
+    return {"kind": "wide", "circ": cs, "ci": max(0, min(ci, w)), "k": rng.choice([0, 1, 2, 3, 12]), "np_ci": rng.random() < 0.3}
+
+
 def builder_cases(rng, big):
     cases = []
     for _ in range(160 if big else 50):
-        npar = rng.choice([0, 0, 1, 1, 1, 2, 3, 3])
-        fac = rng.choice(FACTORIES[npar])
-        maxq = rng.choice([3, 6, 12, 40, 200])
-        qs = _collection(rng, maxq, rng.randrange(0, 7))
-        distinct = len(set(qs))
-        kind_in = rng.choice(["list", "list", "tuple", "set"])
-        use_rows = npar > 0 or (fac == "cg0" and rng.random() < 0.5)
-        nrows = distinct
-        if use_rows and rng.random() < 0.12:
-            nrows = max(0, distinct + rng.choice([-1, 1]))  # malformed: row-count mismatch
-        rows = [[_dyadic(rng) for _ in range(npar)] for _ in range(nrows)] if use_rows else None
-        old = [{"name": rng.choice(["H", "X", "CNOT"]), "qs": None} for _ in range(rng.randrange(0, 3))]
-        for o in old:
-            o["qs"] = rng.sample(range(4), 2 if o["name"] == "CNOT" else 1)
-        cases.append({"kind": "apply", "old": old, "old_n": rng.choice([None, None, 6]), "qs": qs, "input": kind_in,
-                      "factory": fac, "rows": rows, "numpy_rows": bool(rows and npar > 0 and rng.random() < 0.2)})
+        cases.append(apply_case(rng, False))
     sizes = [0, 1, 2, 3, 5, 8, 9, 16, 33, 64, 100, 300] if big else [0, 1, 2, 3, 8, 33, 300]
     for n in sizes + [rng.randrange(1, 40) for _ in range(30 if big else 8)]:
-        npar = rng.choice([0, 1, 1, 2, 3])
-        fac = rng.choice(FACTORIES[npar])
-        use_rows = npar > 0 or (fac == "cg0" and rng.random() < 0.5)
-        rows = [[_dyadic(rng) for _ in range(npar)] for _ in range(n)] if use_rows else None
-        cases.append({"kind": "layer", "n": n, "factory": fac, "rows": rows,
-                      "numpy_rows": bool(rows and npar > 0 and rng.random() < 0.2)})
+        cases.append(layer_case(rng, n, False))
+    for _ in range(120 if big else 48):
+        cases.append(apply_case(rng, True))
+    for n in [rng.choice([1, 2, 3, 9, 10, 13, 64, 65, 80]) for _ in range(40 if big else 12)]:
+        cases.append(layer_case(rng, n, True))
+    for _ in range(60 if big else 16):
+        cases.append(bsession_case(rng))
     return cases
 
 
@@ -309,15 +785,17 @@ def generate(rng, tier):
         declared = rng.choice([None, None, n, n + 1])
         cs = circuit_spec(rng, n, length, model, declared)
         width = declared or n
-        cases.append({"kind": "inverse", "circ": cs, "model": model and width <= 4})
+        mode = build_mode(rng, cs)
+        cases.append({"kind": "inverse", "circ": cs, "model": model and width <= 4, "build": mode})
         for ci in range(width + 1):
-            cases.append({"kind": "controlled", "circ": cs, "ci": ci, "model": model and width <= 3})
-        k = rng.choice([0, 1, 2])
-        cases.append({"kind": "ancilla", "circ": cs, "k": k, "model": model and width + k <= 4})
+            cases.append({"kind": "controlled", "circ": cs, "ci": ci, "model": model and width <= 3, "build": mode,
+                          "np_ci": rng.random() < 0.15})
+        k = rng.choice([0, 1, 2, 2, 3, 6, 12])
+        cases.append({"kind": "ancilla", "circ": cs, "k": k, "model": model and width + k <= 4, "build": mode})
     # --- malformed circuits (the model must reproduce the rejection of to_unitary, the structure is still compared)
     for _ in range(40 if big else 10):
         n = rng.choice([2, 3])
-        cs = circuit_spec(rng, n, rng.randrange(1, 4), True, None)
+        cs = circuit_spec(rng, n, rng.randrange(1, 4), True, None, shapes=False)
         bad = rng.choice(["dup", "range", "arity"])
         o = rng.choice(cs["ops"])
         if bad == "dup":
@@ -333,6 +811,13 @@ def generate(rng, tier):
         ci = rng.randrange(0, n + 1)
         wide = max([ci] + [q + 1 for oo in cs["ops"] for q in oo["qs"]]) + 1
         cases.append({"kind": "controlled", "circ": cs, "ci": ci, "model": wide <= 4, "malformed": bad})
+    # --- long-lived objects, symbolic parameters, wide registers
+    for _ in range(70 if big else 16):
+        cases.append(session_case(rng))
+    for _ in range(40 if big else 8):
+        cases.append(symb_case(rng))
+    for _ in range(40 if big else 10):
+        cases.append(wide_case(rng))
     cases += builder_cases(rng, big)
     return cases
 
@@ -340,29 +825,83 @@ def generate(rng, tier):
 def corpus():
     h = {"gate": "H", "angles": []}
     s = {"gate": "S", "angles": []}
+    x = {"gate": "X", "angles": []}
     rx = {"gate": "RX", "angles": [["3/5", "4/5"]]}
+    rz_tiny = {"gate": "RZ", "angles": [_point(Fraction(1, 10 ** 6))]}
     nil = {"custom": "nil0", "m": [[[0, 0], [1, 1]], [[0, 0], [0, 0]]]}
     cg = {"custom": "cgc", "m": [[[1, 0], [2, 0]], [[0, 1], [1, 0]]]}
+    cg_other = {"custom": "cgc", "m": [[[2, 0], [4, 0]], [[0, 2], [2, 0]]]}
+    cg_tiny = {"custom": "cgt", "m": scaled_matrix(cg["m"], Fraction(1, 2 ** 40))}
     c1 = {"n": None, "ops": [{"g": s, "qs": [1]}, {"g": {"controlled": {"dagger": rx}, "k": 1}, "qs": [2, 0]},
                              {"g": {"power": cg, "e": -2}, "qs": [0]}, {"g": {"exp": nil}, "qs": [1]}]}
     c2 = {"n": 3, "ops": [{"g": h, "qs": [0]}]}
+    c3 = {"n": None, "ops": [{"g": x, "qs": [0]}, {"g": h, "qs": [1]}, {"g": rx, "qs": [0]}, {"g": cg, "qs": [1]}]}
+    c3s = {"n": None, "ops": [{"g": x, "qs": [0]}, {"g": h, "qs": [1]}, {"g": rx, "qs": [0]}, {"g": cg_other, "qs": [1]}]}
+    c4 = {"n": None, "ops": [{"g": rx, "qs": [0]}, {"g": {"gate": "RX", "angles": [near_angle(rx["angles"][0])]}, "qs": [0]}]}
+    c4t = {"n": None, "ops": [{"g": rx, "qs": [0]}, {"g": {"gate": "RX", "angles": [near_angle(rx["angles"][0], True)]}, "qs": [0]}]}
+    c5 = {"n": 14, "ops": [{"g": {"gate": "CNOT", "angles": []}, "qs": [12, 3]}, {"g": rx, "qs": [10]}, {"g": cg, "qs": [3]}]}
+    half = rat(Fraction(1, 2))
     out = [{"kind": "inverse", "circ": c1, "model": True},
            {"kind": "inverse", "circ": {"n": None, "ops": []}, "model": True},
            {"kind": "inverse", "circ": {"n": 2, "ops": []}, "model": True},
+           {"kind": "inverse", "circ": c3, "model": True, "build": "iadd"},
+           {"kind": "inverse", "circ": c3, "model": True, "build": "concat"},
+           {"kind": "inverse", "circ": c4, "model": True},
+           {"kind": "inverse", "circ": c4t, "model": True},
+           {"kind": "inverse", "circ": {"n": None, "ops": [{"g": rz_tiny, "qs": [0]}, {"g": cg_tiny, "qs": [1]}]}, "model": True},
            {"kind": "gate", "g": {"dagger": {"power": {"controlled": s, "k": 1}, "e": 3}}, "model": True},
            {"kind": "gate", "g": {"controlled": {"dagger": {"power": cg, "e": -1}}, "k": 1}, "model": True},
            {"kind": "gate", "g": {"dagger": {"exp": {"dagger": nil}}}, "model": True},
+           {"kind": "gate", "g": rz_tiny, "model": True},
+           {"kind": "gate", "g": cg_tiny, "model": True},
            {"kind": "ancilla", "circ": c2, "k": 2, "model": True},
            {"kind": "ancilla", "circ": c1, "k": 0, "model": True},
+           {"kind": "ancilla", "circ": c2, "k": 9, "model": False},
            {"kind": "apply", "old": [{"name": "H", "qs": [0]}], "old_n": None, "qs": [5, 1, 8, 1, 5], "input": "list",
             "factory": "U3", "rows": [[rat(Fraction(1, 2)), rat(Fraction(1, 4)), 1], [1, 2, 3], [4, 5, 6]], "numpy_rows": False},
            {"kind": "apply", "old": [], "old_n": None, "qs": [5, 1, 8, 1, 5], "input": "tuple", "factory": "RX",
             "rows": [[1], [2]], "numpy_rows": False},
            {"kind": "apply", "old": [], "old_n": None, "qs": [3, 3, 2], "input": "list", "factory": "X", "rows": None,
             "numpy_rows": False},
+           {"kind": "apply", "old": [{"name": "X", "qs": [1]}], "old_n": 40, "qs": list(range(0, 12)), "input": "range",
+            "factory": "H", "rows": None, "numpy_rows": False},
+           {"kind": "apply", "old": [], "old_n": None, "qs": [0, 4, 2], "input": "ndarray", "factory": "RX",
+            "rows": [[-1], [-2], [0]], "numpy_rows": False, "ptype": "int"},
+           {"kind": "apply", "old": [], "old_n": None, "qs": [2, 0], "input": "list", "factory": "fixed", "fixed": rx, "rows": None,
+            "numpy_rows": False},
            {"kind": "layer", "n": 3, "factory": "RX", "rows": [[rat(Fraction(1, 2))], [rat(Fraction(1, 4))], [1]], "numpy_rows": True},
            {"kind": "layer", "n": 300, "factory": "H", "rows": None, "numpy_rows": False},
-           {"kind": "layer", "n": 0, "factory": "X", "rows": None, "numpy_rows": False}]
+           {"kind": "layer", "n": 0, "factory": "X", "rows": None, "numpy_rows": False},
+           {"kind": "layer", "n": 3, "factory": "RY", "rows": [[3], [rat(Fraction(3 * 2 ** 19 + 3, 2 ** 19))], [3]], "numpy_rows": False},
+           {"kind": "session", "circs": [c3, c3s], "sibling": "matrix", "build": "ctor", "model": True,
+            "steps": [{"op": "controlled", "on": 0, "ci": 1}, {"op": "touch", "how": "append"}, {"op": "controlled", "on": 0, "ci": 1},
+                      {"op": "controlled", "on": 0, "ci": 0}, {"op": "controlled", "on": 1, "ci": 1}, {"op": "inverse", "on": 0},
+                      {"op": "touch", "how": "pop"}, {"op": "inverse", "on": 0}, {"op": "inverse", "on": 1},
+                      {"op": "replace", "on": 0, "i": 2, "g": {"gate": "RY", "angles": [["4/5", "3/5"]]}},
+                      {"op": "inverse", "on": 0}, {"op": "controlled", "on": 0, "ci": 1}, {"op": "inverse", "on": "last"},
+                      {"op": "append", "on": 0, "g": s, "qs": [1]}, {"op": "inverse", "on": 0}, {"op": "ancilla", "on": 0, "k": 1},
+                      {"op": "ancilla", "on": 0, "k": 2}, {"op": "ancilla", "on": 1, "k": 1}]},
+           {"kind": "bsession", "old": [{"name": "H", "qs": [0]}], "old_n": 6,
+            "steps": [{"op": "apply", "qs": [3, 1, 3], "input": "list", "factory": "RX", "rows": [[1], [2]], "numpy_rows": False},
+                      {"op": "touch"},
+                      {"op": "apply", "qs": [3, 1, 3], "input": "list", "factory": "RX", "rows": [[1], [2]], "numpy_rows": False},
+                      {"op": "apply", "qs": [1, 3, 3], "input": "list", "factory": "RX", "rows": [[1], [2]], "numpy_rows": False},
+                      {"op": "apply", "qs": [1, 3, 3], "input": "list", "factory": "RX", "rows": [[1], [half]], "numpy_rows": False},
+                      {"op": "append_base", "name": "X", "q": 2},
+                      {"op": "apply", "qs": [1, 3, 3], "input": "list", "factory": "RY", "rows": [[1], [half]], "numpy_rows": False},
+                      {"op": "layer", "n": 3, "factory": "fixed", "fixed": rx, "rows": None, "numpy_rows": False},
+                      {"op": "touch"},
+                      {"op": "layer", "n": 3, "factory": "fixed", "fixed": rx, "rows": None, "numpy_rows": False},
+                      {"op": "layer", "n": 3, "factory": "fixed", "fixed": {"gate": "RX", "angles": [["4/5", "3/5"]]}, "rows": None,
+                       "numpy_rows": False},
+                      {"op": "layer", "n": 4, "factory": "fixed", "fixed": {"gate": "RX", "angles": [["4/5", "3/5"]]}, "rows": None,
+                       "numpy_rows": False}]},
+           {"kind": "symb", "n": None, "ci": 1, "k": 1, "build": "ctor", "vals": {"a": rat(Fraction(3, 4)), "b": rat(Fraction(-5, 8)), "c": 2},
+            "ops": [{"g": {"sgate": "RY", "exprs": ["a"]}, "qs": [0]}, {"g": {"num": h}, "qs": [1]}, {"g": {"num": s}, "qs": [0]},
+                    {"g": {"controlled": {"dagger": {"sgate": "U3", "exprs": ["a+pi/4", "2*a+b", "py:2"]}}, "k": 1}, "qs": [1, 0]},
+                    {"g": {"dagger": {"scustom": "cgs", "exprs": ["a*b", "c"]}}, "qs": [1]}]},
+           {"kind": "wide", "circ": c5, "ci": 11, "k": 2, "np_ci": False},
+           {"kind": "wide", "circ": c5, "ci": 3, "k": 12, "np_ci": True}]
     for ci in range(4):
         out.append({"kind": "controlled", "circ": c1, "ci": ci, "model": True})
     for ci in range(4):
@@ -372,7 +911,7 @@ def corpus():
 
 def nontrivial(c):
     k = c["kind"]
-    if k in ("inverse", "controlled", "ancilla"):
+    if k in ("inverse", "controlled", "ancilla", "wide"):
         ops = c["circ"]["ops"]
         return len(ops) >= 2 and any(spec_depth(o["g"]) >= 1 or spec_parametric(o["g"]) for o in ops)
     if k == "gate":
@@ -382,6 +921,12 @@ def nontrivial(c):
         return len(set(qs)) != len(qs) or qs != sorted(qs)
     if k == "layer":
         return c["n"] >= 2 and c["rows"] is not None
+    if k == "session":
+        return sum(1 for s in c["steps"] if s["op"] in ("inverse", "controlled", "ancilla")) >= 3
+    if k == "bsession":
+        return sum(1 for s in c["steps"] if s["op"] in ("apply", "layer")) >= 3
+    if k == "symb":
+        return len(c["ops"]) >= 2
     return False
 
 
@@ -404,8 +949,295 @@ def _old_circuit(c):
     return oqc.Circuit(ops, n_qubits=c["old_n"])
 
 
+def _exact(p):
+    return rat(Fraction(float(p)))
+
+
 def _op_canon(op):
-    return [op.gate.name, [rat(Fraction(float(p))) for p in op.gate.params], [int(q) for q in op.qubit_indices]]
+    return [op.gate.name, [_exact(p) for p in op.gate.params], [int(q) for q in op.qubit_indices]]
+
+
+def _gate_key(g):
+    return [norm_struct(gate_struct(g)), [_exact(p) for p in g.params]]
+
+
+def build_circuit(cs, mode=None):
+    """the REAL circuit of a spec, put together by the constructor, by += per operation, or by adding two circuits"""
+    oqc, _, _ = _lib()
+    if mode in (None, "ctor"):
+        return circ.build_circuit(cs)
+    ops = [circ.build_gate(o["g"])(*o["qs"]) for o in cs["ops"]]
+    if mode == "iadd":
+        c = oqc.Circuit(n_qubits=cs.get("n"))
+        for op in ops:
+            c += op
+        return c
+    h = len(ops) // 2
+    return oqc.Circuit(ops[:h], n_qubits=cs.get("n")) + oqc.Circuit(ops[h:])
+
+
+def _ci(c, ci=None):
+    import numpy as np
+    ci = c["ci"] if ci is None else ci
+    return np.int64(ci) if c.get("np_ci") else ci
+
+
+class _Snap:
+    """observable state of circuits: width, per operation (structure, qubits, matrix); matrices are evaluated once per
+    gate OBJECT (gates are immutable values; the object is kept alive so that its id stays its own)"""
+
+    def __init__(self):
+        self.mats, self.by_id, self.keep = [], {}, []
+
+    def mat(self, g):
+        if id(g) not in self.by_id:
+            self.keep.append(g)
+            self.by_id[id(g)] = len(self.mats)
+            self.mats.append(mjson(matrix_of(g)))
+        return self.by_id[id(g)]
+
+    def snap(self, c):
+        return {"n": int(c.n_qubits), "ops": [{"g": norm_struct(gate_struct(op.gate)), "qs": [int(q) for q in op.qubit_indices],
+                                                "mi": self.mat(op.gate)} for op in c.operations]}
+
+    def same(self, a, b):
+        return a["n"] == b["n"] and len(a["ops"]) == len(b["ops"]) and all(
+            x["g"] == y["g"] and x["qs"] == y["qs"] and self.mats[x["mi"]] == self.mats[y["mi"]]
+            for x, y in zip(a["ops"], b["ops"]))
+
+
+def _run_session(c):
+    oqc, _, gen = _lib()
+    circs = [build_circuit(cs, c.get("build") if j == 0 else "ctor") for j, cs in enumerate(c["circs"])]
+    sn = _Snap()
+    last, recs = None, []
+    for st in c["steps"]:
+        op = st["op"]
+        if op == "touch":                                    # the caller edits the circuit it was handed (not when the call
+            if last is not None and not any(last is x for x in circs):   # handed back its own argument: 0 ancillas)
+                ops = last.operations
+                if st["how"] == "append" and last.n_qubits >= 1:
+                    ops.append(oqc.X(0))
+                elif st["how"] == "pop" and ops:
+                    ops.pop()
+                elif st["how"] == "reverse":
+                    ops.reverse()
+            recs.append({"op": op})
+            continue
+        if op == "replace":
+            tgt = circs[st["on"]]
+            old = tgt.operations[st["i"]]
+            tgt.operations[st["i"]] = circ.build_gate(st["g"])(*old.qubit_indices)
+            recs.append({"op": op})
+            continue
+        if op == "append":
+            circs[st["on"]].operations.append(circ.build_gate(st["g"])(*st["qs"]))
+            recs.append({"op": op})
+            continue
+        src = last if st["on"] == "last" else circs[st["on"]]
+        if src is None:
+            recs.append({"op": "skip"})
+            continue
+        before = sn.snap(src)
+        rec = {"op": op, "src": before}
+        if op == "inverse":
+            res = src.inverse()
+        elif op == "controlled":
+            rec["ci"] = min(st["ci"], int(src.n_qubits))
+            res = src.controlled(rec["ci"])
+        else:
+            rec["k"] = st["k"]
+            res = gen.add_ancilla_register(src, st["k"])
+        rec["res"] = sn.snap(res)
+        rec["intact"] = sn.same(before, sn.snap(src))
+        last = res
+        recs.append(rec)
+    return {"steps": recs, "mats": sn.mats}
+
+
+def _rows_value(c):
+    """the parameter table in the Python types the case asks for (None: no table)"""
+    import numpy as np
+    import sympy
+    rows = c["rows"]
+    if rows is None:
+        return None
+    ptype = c.get("ptype") or ("np" if c.get("numpy_rows") else "float")
+    fr = [[unrat(x) for x in r] for r in rows]
+    if ptype == "int" and all(x.denominator == 1 for r in fr for x in r):
+        return [[int(x) for x in r] for r in fr]
+    if ptype == "sympy" and all(Fraction(float(x)) == x for r in fr for x in r):
+        return [[sympy.Rational(x.numerator, x.denominator) for x in r] for r in fr]
+    prow = [[float(x) for x in r] for r in fr]
+    if ptype == "np" and prow and prow[0]:
+        return np.array(prow)
+    if ptype == "tuple":
+        return tuple(tuple(r) for r in prow)
+    return prow
+
+
+def _qubits_value(kind, qs, live):
+    import numpy as np
+    if kind == "list":
+        if live is not None:                                 # the SAME list object across the calls of a session
+            obj = live.setdefault("qs", [])
+            obj[:] = qs
+            return obj
+        return list(qs)
+    if kind == "range":
+        return range(qs[0], qs[0] + len(qs))
+    if kind == "ndarray":
+        return np.array(qs, dtype=np.int64)
+    if kind == "dict":
+        return dict.fromkeys(qs).keys()
+    return {"tuple": tuple, "set": set, "frozenset": frozenset}[kind](qs)
+
+
+def _builder_call(k, c, base, live):
+    """one call of apply_gate_to_qubits / create_layer_of_gates, observed"""
+    _, _, gen = _lib()
+    rows = c["rows"]
+    if c.get("fixed") is not None:
+        gate_factory = circ.build_gate(c["fixed"])
+        fname = gate_factory.name
+    else:
+        fac, fname = _factory(c["factory"])
+        gate_factory = fac if rows is not None else (fac() if c["factory"].startswith("cg") else fac)
+    prow = _rows_value(c)
+    if live is not None and isinstance(prow, list) and isinstance(live.get("rows"), list):
+        live["rows"][:] = prow                               # the SAME table object, edited in place between calls
+        prow = live["rows"]
+    elif live is not None and isinstance(prow, list):
+        live["rows"] = prow
+    want_gate = _gate_key(gate_factory) if rows is None else None
+    with warnings.catch_warnings(record=True) as wlist:
+        warnings.simplefilter("always")
+        try:
+            if k == "layer":
+                order = [int(q) for q in set(range(c["n"]))]
+                res = gen.create_layer_of_gates(c["n"], gate_factory, prow)
+                old_ops, old_struct, intact = [], None, True
+            else:
+                qs = _qubits_value(c["input"], c["qs"], live)
+                order = [int(q) for q in set(qs)]
+                old_ops = list(base.operations)
+                old_struct = circ_struct(base)
+                res = gen.apply_gate_to_qubits(base, qs, gate_factory, prow)
+                intact = circ_struct(base) == old_struct and list(base.operations) == old_ops
+        except AssertionError:
+            return {"err": "err:assert", "order": order, "fname": fname}, None
+    ops = list(res.operations)
+    new = ops[len(old_ops):]
+    return {"n": int(res.n_qubits), "n_old": len(old_ops), "prefix_same": ops[:len(old_ops)] == old_ops,
+            "old_qs": [[int(q) for q in o.qubit_indices] for o in old_ops],
+            "old_n": old_struct["n"] if old_struct else 0,
+            "new": [_op_canon(o) for o in new], "order": order, "fname": fname,
+            "warned": any("Duplicate" in str(w.message) for w in wlist), "source_intact": intact,
+            "fixed_ok": (all(o.gate == gate_factory and _gate_key(o.gate) == want_gate for o in new)
+                         if rows is None else None)}, res
+
+
+def _run_bsession(c):
+    oqc, _, _ = _lib()
+    base = _old_circuit(c)
+    live, last, recs = {}, None, []
+    for st in c["steps"]:
+        op = st["op"]
+        if op == "touch":
+            if last is not None and last.n_qubits >= 1:
+                last.operations.append(oqc.X(0))
+            recs.append({"op": op})
+        elif op == "append_base":
+            if st["q"] < base.n_qubits:
+                base.operations.append(getattr(oqc, st["name"])(st["q"]))
+            recs.append({"op": op})
+        else:
+            rec, res = _builder_call(op, st, base, live)
+            rec["op"] = op
+            last = res if res is not None else last
+            recs.append(rec)
+    return {"steps": recs}
+
+
+def _sym_value(e):
+    import numpy as np
+    import sympy
+    if e.startswith("py:"):
+        v = e[3:]
+        return int(v) if v.lstrip("-").isdigit() else float(v)
+    if e.startswith("np:"):
+        return np.float64(e[3:])
+    return sympy.sympify(e, locals={s: sympy.Symbol(s) for s in ("a", "b", "c")})
+
+
+def build_sym_gate(spec):
+    oqc, _, _ = _lib()
+    import sympy
+    if "num" in spec:
+        return circ.build_gate(spec["num"])
+    if "sgate" in spec:
+        return getattr(oqc, spec["sgate"])(*[_sym_value(e) for e in spec["exprs"]])
+    if "scustom" in spec:
+        p, q = sympy.symbols("p0 p1")
+        m = sympy.Matrix([[sympy.cos(p / 2), -sympy.exp(-sympy.I * q) * sympy.sin(p / 2)],
+                          [sympy.exp(sympy.I * q) * sympy.sin(p / 2), sympy.exp(sympy.I * (q + p)) * sympy.cos(p / 2)]])
+        return oqc.CustomGateDefinition(spec["scustom"], m, (p, q))(*[_sym_value(e) for e in spec["exprs"]])
+    if "controlled" in spec:
+        return build_sym_gate(spec["controlled"]).controlled(spec["k"])
+    return build_sym_gate(spec["dagger"]).dagger
+
+
+def _run_symb(c):
+    oqc, _, gen = _lib()
+    import numpy as np
+    import sympy
+    ops = [build_sym_gate(o["g"])(*o["qs"]) for o in c["ops"]]
+    if c.get("build") == "iadd":
+        src = oqc.Circuit(n_qubits=c["n"])
+        for op in ops:
+            src += op
+    else:
+        src = oqc.Circuit(ops, n_qubits=c["n"])
+    sigma = {sympy.Symbol(s): float(unrat(v)) for s, v in c["vals"].items()}
+    ci = min(c["ci"], int(src.n_qubits))
+    before = circ_struct(src)
+    inv = src.inverse()
+    circs = {"src": src, "inv": inv, "inv2": inv.inverse(), "ctl": src.controlled(ci), "ext": gen.add_ancilla_register(src, c["k"])}
+    intact = circ_struct(src) == before
+
+    def num(m):
+        if isinstance(m, sympy.MatrixBase):
+            m = m.subs(sigma).evalf()
+        return np.array(circ.impl_matrix_to_numpy(m))
+
+    out = {"ci": ci, "intact": intact, "symbolic": bool(src.free_symbols)}
+    seen = {}                                                # per gate OBJECT (kept alive): evaluated once
+    for name, cc in circs.items():
+        rec = {"n": int(cc.n_qubits), "ops": []}
+        for op in cc.operations:
+            g = op.gate
+            if id(g) not in seen:
+                bound = g.bind(sigma) if g.free_symbols else g
+                seen[id(g)] = (g, mjson(num(g.matrix)), mjson(num(bound.matrix)), norm_struct(gate_struct(g)))
+            _, ms, mb, st = seen[id(g)]
+            rec["ops"].append({"qs": [int(q) for q in op.qubit_indices], "subs": ms, "bind": mb, "g": st})
+        if cc.n_qubits <= 2 and cc.operations:               # the whole-circuit path: symbolic to_unitary, then the values
+            rec["u"] = mjson(num(cc.to_unitary()))
+        out[name] = rec
+    return out
+
+
+def _run_wide(c):
+    _, _, gen = _lib()
+    src = circ.build_circuit(c["circ"])
+    sn = _Snap()
+    before = sn.snap(src)
+    inv = src.inverse()
+    out = {"src": before, "inv": sn.snap(inv), "inv2": sn.snap(inv.inverse()), "ctl": sn.snap(src.controlled(_ci(c))),
+           "ext": sn.snap(gen.add_ancilla_register(src, c["k"]))}
+    out["intact"] = sn.same(before, sn.snap(src))
+    out["mats"] = sn.mats
+    return out
 
 
 def run_impl(c):
@@ -415,80 +1247,110 @@ def run_impl(c):
     if k == "gate":
         g = circ.build_gate(c["g"])
         d, cg = g.dagger, g.controlled(1)
-        return {"g": norm_struct(gate_struct(g)), "nq": int(g.num_qubits), "dagger": norm_struct(gate_struct(d)),
-                "controlled": norm_struct(gate_struct(cg)), "nq_dagger": int(d.num_qubits), "nq_controlled": int(cg.num_qubits),
-                "m": mjson(matrix_of(g)), "dagger_m": mjson(matrix_of(d)), "controlled_m": mjson(matrix_of(cg))}
+        out = {"g": norm_struct(gate_struct(g)), "nq": int(g.num_qubits), "dagger": norm_struct(gate_struct(d)),
+               "controlled": norm_struct(gate_struct(cg)), "nq_dagger": int(d.num_qubits), "nq_controlled": int(cg.num_qubits),
+               "m": mjson(matrix_of(g)), "dagger_m": mjson(matrix_of(d)), "controlled_m": mjson(matrix_of(cg))}
+        # the other ways to the same gates: dagger twice, controlled∘dagger and dagger∘controlled, two controls at once,
+        # and the same request again on the same object
+        dd, cd, dc, d2, c1b = d.dagger, cg.dagger, d.controlled(1), g.dagger, g.controlled(1)
+        out.update({"dd": norm_struct(gate_struct(dd)), "cd": norm_struct(gate_struct(cd)), "dc": norm_struct(gate_struct(dc)),
+                    "again_same": norm_struct(gate_struct(d2)) == out["dagger"] and norm_struct(gate_struct(c1b)) == out["controlled"]})
+        if g.num_qubits <= 2:
+            c2 = g.controlled(2)
+            out.update({"c2": norm_struct(gate_struct(c2)), "nq_c2": int(c2.num_qubits), "dd_m": mjson(matrix_of(dd)),
+                        "cd_m": mjson(matrix_of(cd)), "dc_m": mjson(matrix_of(dc)), "c2_m": mjson(matrix_of(c2)),
+                        "again_dagger_m": mjson(matrix_of(d2))})
+        return out
     if k == "inverse":
-        cc = circ.build_circuit(c["circ"])
+        cc = build_circuit(c["circ"], c.get("build"))
         before = circ_struct(cc)
         inv = cc.inverse()
         inv2 = inv.inverse()
         gates_unitary = True
+        gms = []
         for op in cc.operations:
             m = matrix_of(op.gate)
+            gms.append(m)
             if isinstance(m, str) or not circ.close(m.conj().T @ m, np.eye(m.shape[0]), 1e-9):
                 gates_unitary = False
         return {"orig": before, "inv": circ_struct(inv), "inv2": circ_struct(inv2), "u": mjson(unitary_of(cc)),
                 "u_inv": mjson(unitary_of(inv)), "u_both": mjson(unitary_of(cc + inv)), "u_both_rev": mjson(unitary_of(inv + cc)),
-                "u_inv2": mjson(unitary_of(inv2)), "gates_unitary": gates_unitary, "source_intact": circ_struct(cc) == before}
+                "u_inv2": mjson(unitary_of(inv2)), "gates_unitary": gates_unitary, "source_intact": circ_struct(cc) == before,
+                "floor": floor_of(gms)}
     if k == "controlled":
-        cc = circ.build_circuit(c["circ"])
+        cc = build_circuit(c["circ"], c.get("build"))
         before = circ_struct(cc)
-        ctl = cc.controlled(c["ci"])
-        gate_ms = [mjson(matrix_of(op.gate)) for op in cc.operations]
-        return {"orig": before, "ctl": circ_struct(ctl), "u_ctl": mjson(unitary_of(ctl)), "gate_ms": gate_ms,
-                "source_intact": circ_struct(cc) == before}
+        ctl = cc.controlled(_ci(c))
+        gms = [matrix_of(op.gate) for op in cc.operations]
+        return {"orig": before, "ctl": circ_struct(ctl), "u_ctl": mjson(unitary_of(ctl)), "gate_ms": [mjson(m) for m in gms],
+                "source_intact": circ_struct(cc) == before, "floor": floor_of(gms)}
     if k == "ancilla":
-        cc = circ.build_circuit(c["circ"])
+        cc = build_circuit(c["circ"], c.get("build"))
         before = circ_struct(cc)
         ext = gen.add_ancilla_register(cc, c["k"])
-        return {"orig": before, "ext": circ_struct(ext), "u": mjson(unitary_of(cc)), "u_ext": mjson(unitary_of(ext)),
-                "source_intact": circ_struct(cc) == before}
+        small = ext.n_qubits <= 6
+        new_ops = list(ext.operations)[len(cc.operations):]
+        return {"orig": before, "ext": circ_struct(ext), "u": mjson(unitary_of(cc)),
+                "u_ext": mjson(unitary_of(ext)) if small else None,
+                "new_ops": [[[int(q) for q in op.qubit_indices], mjson(matrix_of(op.gate))] for op in new_ops],
+                "source_intact": circ_struct(cc) == before, "floor": floor_of([matrix_of(op.gate) for op in cc.operations])}
     if k in ("apply", "layer"):
-        fac, fname = _factory(c["factory"])
-        rows = c["rows"]
-        if rows is not None:
-            prow = [[float(unrat(x)) for x in r] for r in rows]
-            if c.get("numpy_rows") and prow and prow[0]:
-                prow = np.array(prow)
-            gate_factory = fac
-        else:
-            prow = None
-            gate_factory = fac() if c["factory"].startswith("cg") else fac
-        with warnings.catch_warnings(record=True) as wlist:
-            warnings.simplefilter("always")
-            try:
-                if k == "layer":
-                    order = [int(q) for q in set(range(c["n"]))]
-                    res = gen.create_layer_of_gates(c["n"], gate_factory, prow)
-                    old_ops, old_struct, intact = [], None, True
-                else:
-                    qs = {"list": list, "tuple": tuple, "set": set}[c["input"]](c["qs"])
-                    order = [int(q) for q in set(qs)]
-                    base = _old_circuit(c)
-                    old_ops = list(base.operations)
-                    old_struct = circ_struct(base)
-                    res = gen.apply_gate_to_qubits(base, qs, gate_factory, prow)
-                    intact = circ_struct(base) == old_struct and list(base.operations) == old_ops
-            except AssertionError:
-                return {"err": "err:assert", "order": order, "fname": fname}
-        ops = list(res.operations)
-        return {"n": int(res.n_qubits), "n_old": len(old_ops), "prefix_same": ops[:len(old_ops)] == old_ops,
-                "old_qs": [[int(q) for q in o.qubit_indices] for o in old_ops],
-                "old_n": old_struct["n"] if old_struct else 0,
-                "new": [_op_canon(o) for o in ops[len(old_ops):]], "order": order, "fname": fname,
-                "warned": any("Duplicate" in str(w.message) for w in wlist), "source_intact": intact,
-                "fixed_ok": (all(o.gate == gate_factory for o in ops[len(old_ops):]) if rows is None else None)}
+        rec, _ = _builder_call(k, c, _old_circuit(c) if k == "apply" else None, None)
+        return rec
+    if k == "session":
+        return _run_session(c)
+    if k == "bsession":
+        return _run_bsession(c)
+    if k == "symb":
+        return _run_symb(c)
+    if k == "wide":
+        return _run_wide(c)
     raise AssertionError("unknown kind")
 
 
 # ----------------------------------------------------------------------------------------------- model side
+def _session_specs(c):
+    """the circuit spec of the source of every step, following the in-place edits (None: the model is not asked)"""
+    specs = [copy.deepcopy(cs) for cs in c["circs"]]
+    out = []
+    for st in c["steps"]:
+        op = st["op"]
+        if op == "replace":
+            o = specs[st["on"]]["ops"][st["i"]]
+            specs[st["on"]]["ops"][st["i"]] = {"g": st["g"], "qs": o["qs"]}
+            out.append(None)
+        elif op == "append":
+            specs[st["on"]]["ops"].append({"g": st["g"], "qs": st["qs"]})
+            out.append(None)
+        elif op == "touch" or st["on"] == "last":
+            out.append(None)
+        else:
+            out.append(copy.deepcopy(specs[st["on"]]))
+    return out
+
+
+def _builder_request(k, c, rec):
+    if k == "apply":
+        cj = {"n": rec.get("old_n") or None, "ops": [{"label": {"old": i}, "qs": qs} for i, qs in enumerate(rec.get("old_qs", []))]}
+        if "old_qs" not in rec:                               # rejected call: the base as the case describes it
+            cj = None
+        p = {"circ": cj, "order": rec["order"]}
+    else:
+        p = {"order": rec["order"]}
+    if c["rows"] is not None:
+        p["rows"] = c["rows"]
+    return (k, p)
+
+
 def requests(c, out):
     k = c["kind"]
     if "exc" in out:
         return []
     if k == "gate":
-        return [("gate", {"g": c["g"]})]
+        rs = [("gate", {"g": c["g"]}), ("gate", {"g": {"dagger": c["g"]}}), ("gate", {"g": {"controlled": c["g"], "k": 1}})]
+        if "c2" in out:
+            rs.append(("gate", {"g": {"controlled": c["g"], "k": 2}}))
+        return rs
     if k == "inverse":
         p = dict(c["circ"], want_u=bool(c["model"]))
         return [("inverse", p), ("inverse2", dict(c["circ"], want_u=False)),
@@ -508,15 +1370,65 @@ def requests(c, out):
         if c["rows"] is not None:
             p["rows"] = c["rows"]
         return [("layer", p)]
+    if k == "session":
+        rs = []
+        for st, rec, spec in zip(c["steps"], out["steps"], _session_specs(c)):
+            if spec is None or rec["op"] not in ("inverse", "controlled", "ancilla"):
+                continue
+            want = bool(c["model"]) and rec["res"]["n"] <= 3
+            if rec["op"] == "inverse":
+                rs.append(("inverse", dict(spec, want_u=want)))
+            elif rec["op"] == "controlled":
+                rs.append(("controlled", dict(spec, ci=rec["ci"], want_u=want)))
+            else:
+                rs.append(("ancilla_u", dict(spec, k=rec["k"], want_u=want)))
+        return rs
+    if k == "bsession":
+        rs = []
+        olds = len(c["old"])
+        for st, rec in zip(c["steps"], out["steps"]):
+            if rec["op"] in ("apply", "layer"):
+                if rec["op"] == "apply" and "old_qs" not in rec:
+                    continue
+                rs.append(_builder_request(rec["op"], st, rec))
+        return rs
+    if k == "wide":
+        cs = c["circ"]
+        return [("inverse", dict(cs, want_u=False)), ("inverse2", dict(cs, want_u=False)),
+                ("controlled", dict(cs, ci=c["ci"], want_u=False)), ("ancilla_u", dict(cs, k=c["k"], want_u=False))]
     return []
 
 
-def _cmp_u(model_u, impl_u, what):
+def _cmp_u(model_u, impl_u, what, floor=1.0):
     mu = "err" if isinstance(model_u, str) else circ.model_matrix_to_numpy(model_u)
-    iu = mnp(impl_u)
-    if not close(mu, iu):
+    iu = mnp(impl_u) if not hasattr(impl_u, "shape") else impl_u
+    if not close(mu, iu, TOL, floor):
         return f"{what}: model and implementation matrices differ (model {'err' if isinstance(mu, str) else 'matrix'}, " \
                f"impl {'err' if isinstance(iu, str) else 'matrix'})"
+    return None
+
+
+def _snap_struct(s):
+    return {"n": s["n"], "ops": [[o["g"], o["qs"]] for o in s["ops"]]}
+
+
+def _builder_compare(k, c, out, r):
+    if isinstance(r, str):
+        return None if out.get("err") == r else f"{k}: model {r}, impl {out}"
+    if out.get("err"):
+        return f"{k}: impl raised {out['err']}, model built {r}"
+    want = [[{"old": i}, qs] for i, qs in enumerate(out["old_qs"])] if k == "apply" else []
+    if not out["prefix_same"]:
+        return "existing operations were not kept as a prefix"
+    for op in out["new"]:
+        lab = "fixed" if c["rows"] is None else {"row": [rat(unrat(x)) for x in op[1]]}
+        want.append([lab, op[2]])
+        if op[0] != out["fname"]:
+            return f"{k}: new gate {op[0]} is not the factory's gate {out['fname']}"
+    got = [[({"row": [_exact(float(unrat(x))) for x in o[0]["row"]]} if isinstance(o[0], dict) and "row" in o[0] else o[0]), o[1]]
+           for o in r["ops"]]
+    if got != want or int(r["n"]) != out["n"]:
+        return f"{k}: impl ops {want} n={out['n']}; model ops {got} n={r['n']}"
     return None
 
 
@@ -532,9 +1444,17 @@ def compare(c, out, resp):
                 return f"gate.{key}: structure impl {out[key]} model {norm_struct(r[key])}"
         if int(r["nq"]) != out["nq"]:
             return f"num_qubits impl {out['nq']} model {r['nq']}"
+        for what, rr, key in (("dagger.dagger", resp[1], "dagger"), ("dagger.controlled(1)", resp[1], "controlled"),
+                              ("controlled(1).dagger", resp[2], "dagger")):
+            name = {"dagger.dagger": "dd", "dagger.controlled(1)": "dc", "controlled(1).dagger": "cd"}[what]
+            if norm_struct(rr[key]) != out[name]:
+                return f"gate.{what}: structure impl {out[name]} model {norm_struct(rr[key])}"
+        if "c2" in out and len(resp) > 3 and norm_struct(resp[3]["g"]) != out["c2"]:
+            return f"gate.controlled(2): structure impl {out['c2']} model {norm_struct(resp[3]['g'])}"
         if c["model"]:
+            fl = floor_of([mnp(out["m"])])
             for key in ("m", "dagger_m", "controlled_m"):
-                msg = _cmp_u(r[key], out[key], "gate." + key)
+                msg = _cmp_u(r[key], out[key], "gate." + key, fl if key != "controlled_m" else 1.0)
                 if msg:
                     return msg
     elif k == "inverse":
@@ -543,7 +1463,7 @@ def compare(c, out, resp):
         if model_struct(resp[1]) != out["inv2"]:
             return f"inverse twice: structure impl {out['inv2']} model {model_struct(resp[1])}"
         if c["model"]:
-            msg = _cmp_u(r["u"], out["u_inv"], "to_unitary(inverse)")
+            msg = _cmp_u(r["u"], out["u_inv"], "to_unitary(inverse)", out.get("floor", 1.0))
             if msg is None and "u" in resp[2]:
                 msg = _cmp_u(resp[2]["u"], out["u_both"], "to_unitary(c + inverse)")
             return msg
@@ -555,29 +1475,249 @@ def compare(c, out, resp):
     elif k == "ancilla":
         if model_struct(r) != out["ext"]:
             return f"add_ancilla_register: structure impl {out['ext']} model {model_struct(r)}"
-        if c["model"]:
-            return _cmp_u(r["u"], out["u_ext"], "to_unitary(extended)")
+        if c["model"] and out.get("u_ext") is not None:
+            return _cmp_u(r["u"], out["u_ext"], "to_unitary(extended)", out.get("floor", 1.0))
     elif k in ("apply", "layer"):
-        if isinstance(r, str):
-            return None if out.get("err") == r else f"{k}: model {r}, impl {out}"
-        if out.get("err"):
-            return f"{k}: impl raised {out['err']}, model built {r}"
-        want = [[{"old": i}, qs] for i, qs in enumerate(out["old_qs"])] if k == "apply" else []
-        if not out["prefix_same"]:
-            return "existing operations were not kept as a prefix"
-        for op in out["new"]:
-            lab = "fixed" if c["rows"] is None else {"row": [rat(unrat(x)) for x in op[1]]}
-            want.append([lab, op[2]])
-            if op[0] != out["fname"]:
-                return f"{k}: new gate {op[0]} is not the factory's gate {out['fname']}"
-        got = [[({"row": [rat(unrat(x)) for x in o[0]["row"]]} if isinstance(o[0], dict) and "row" in o[0] else o[0]), o[1]]
-               for o in r["ops"]]
-        if got != want or int(r["n"]) != out["n"]:
-            return f"{k}: impl ops {want} n={out['n']}; model ops {got} n={r['n']}"
+        return _builder_compare(k, c, out, r)
+    elif k == "session":
+        it = iter(resp)
+        for i, (rec, spec) in enumerate(zip(out["steps"], _session_specs(c))):
+            if spec is None or rec["op"] not in ("inverse", "controlled", "ancilla"):
+                continue
+            r = next(it)
+            if model_struct(r) != _snap_struct(rec["res"]):
+                return f"session step {i} ({rec['op']}): structure impl {_snap_struct(rec['res'])} model {model_struct(r)}"
+            if "u" in r:
+                mats = [mnp(m) for m in out["mats"]]
+                msg = _cmp_u(r["u"], _action(rec["res"], mats), f"session step {i} ({rec['op']})",
+                             floor_of([mats[o["mi"]] for o in rec["src"]["ops"]]))
+                if msg:
+                    return msg
+    elif k == "bsession":
+        it = iter(resp)
+        for i, (st, rec) in enumerate(zip(c["steps"], out["steps"])):
+            if rec["op"] not in ("apply", "layer") or (rec["op"] == "apply" and "old_qs" not in rec):
+                continue
+            msg = _builder_compare(rec["op"], st, rec, next(it))
+            if msg:
+                return f"builder session step {i}: {msg}"
+    elif k == "wide":
+        for name, rr in zip(("inv", "inv2", "ctl", "ext"), resp):
+            if model_struct(rr) != _snap_struct(out[name]):
+                return f"wide {name}: structure impl {_snap_struct(out[name])} model {model_struct(rr)}"
     return None
 
 
 # ----------------------------------------------------------------------------------------------- oracle
+def _action(snap, mats, relabel=None, width=None, key="mi"):
+    """product of the operations of a snapshot in program order, each embedded by bit manipulation;
+    relabel: qubit -> position in a smaller register (order preserving); 'err' for an ill-formed circuit"""
+    import numpy as np
+    n = snap["n"] if width is None else width
+    u = np.eye(2 ** n, dtype=complex)
+    for op in snap["ops"]:
+        m = mats[op[key]] if key == "mi" else mnp(op[key])
+        qs = [relabel[q] for q in op["qs"]] if relabel is not None else list(op["qs"])
+        if isinstance(m, str) or len(set(qs)) != len(qs) or any(q < 0 or q >= n for q in qs) or m.shape != (2 ** len(qs),) * 2:
+            return "err"
+        u = circ.embed_reference(m, qs, n) @ u
+    return u
+
+
+def _touched(*snaps):
+    return {q for s in snaps for op in s["ops"] for q in op["qs"]}
+
+
+def _check_inverse(u, ui, floor):
+    if isinstance(ui, str) or not close(ui, u.conj().T, OTOL, floor):
+        return ("inverse-not-adjoint", "to_unitary(inverse) is not the conjugate transpose of to_unitary(circuit)")
+    return None
+
+
+def _check_controlled_blocks(uc, u0, n1, ci, floor):
+    """uc on n1 qubits = identity where qubit ci is 0, u0 on the other qubits (in order) where it is 1"""
+    import numpy as np
+    if isinstance(uc, str):
+        return ("controlled-raises", "to_unitary of the controlled circuit raised for a well-formed circuit")
+    if uc.shape != (2 ** n1,) * 2 or u0.shape != (2 ** (n1 - 1),) * 2:
+        return ("controlled-action", f"controlled({ci}): a {uc.shape} matrix for a circuit of {u0.shape}")
+    sh = n1 - 1 - ci
+    xs = np.arange(2 ** n1)
+    bit = (xs >> sh) & 1
+    rest = ((xs >> (sh + 1)) << sh) | (xs & ((1 << sh) - 1))
+    i1 = xs[bit == 1][np.argsort(rest[bit == 1])]
+    i0 = xs[bit == 0][np.argsort(rest[bit == 0])]
+    ok = (close(uc[np.ix_(i1, i1)], u0, OTOL, floor) and close(uc[np.ix_(i0, i0)], np.eye(len(i0)), OTOL)
+          and _amax(uc[np.ix_(i0, i1)]) <= OTOL * max(1.0, _amax(u0)) and _amax(uc[np.ix_(i1, i0)]) <= OTOL * max(1.0, _amax(u0)))
+    if not ok:
+        return ("controlled-action", f"controlled({ci}) is not identity-on-0 / circuit-on-1 with indices >= {ci} shifted")
+    return None
+
+
+def _check_controlled(src_ops, res_n, ci, uc_of, u0_of, floor):
+    """src_ops/res_ops: lists of qubit lists; uc_of(n1), u0_of(n0): the matrices at the given widths"""
+    if not src_ops:
+        return None
+    n1 = res_n
+    n0 = n1 - 1
+    if ci >= n1 or any(q >= n0 for qs in src_ops for q in qs):
+        return ("controlled-width", f"controlled({ci}) circuit of width {n1} cannot hold the control and the shifted circuit")
+    u0 = u0_of(n0)
+    if isinstance(u0, str):
+        return None
+    return _check_controlled_blocks(uc_of(n1), u0, n1, ci, floor)
+
+
+def _ancilla_identity(new_ops, n_src):
+    """the appended operations act as the identity: True / False / None (cannot tell without the full matrix)"""
+    import numpy as np
+    per = {}
+    for qs, m in new_ops:
+        m = mnp(m)
+        if isinstance(m, str) or len(qs) != 1 or qs[0] < n_src or m.shape != (2, 2):
+            return None
+        per[qs[0]] = m @ per.get(qs[0], np.eye(2, dtype=complex))
+    phase = 1.0 + 0j
+    for m in per.values():
+        if not close(m, m[0, 0] * np.eye(2), OTOL):
+            return False
+        phase *= m[0, 0]
+    return abs(phase - 1) <= OTOL
+
+
+def _check_ancilla(o_n, o_ops, e_n, e_ops, kk, u, ue, new_ops, floor):
+    """o_ops / e_ops comparable operation lists; u, ue matrices or None where not materialised"""
+    import numpy as np
+    if e_n != o_n + kk:
+        return ("ancilla-width", f"{o_n} qubits + {kk} ancillas gave {e_n} qubits")
+    if e_ops[:len(o_ops)] != o_ops:
+        return ("ancilla-prefix", "existing operations were changed")
+    if isinstance(u, str):
+        return None
+    ident = _ancilla_identity(new_ops, o_n) if len(e_ops) == len(o_ops) + len(new_ops) else None
+    if ident is False:
+        return ("ancilla-action", "the operations added for the ancillas do not act as the identity")
+    if ue is not None and u is not None:
+        if isinstance(ue, str) or not close(ue, np.kron(u, np.eye(2 ** kk)), OTOL, floor):
+            return ("ancilla-action", "extended circuit does not act as U ⊗ 1")
+    return None
+
+
+def _block_diag_check(cm, m, lead):
+    """cm = diag(1_lead, m): the block compared at m's own scale"""
+    import numpy as np
+    d = m.shape[0]
+    if isinstance(cm, str) or cm.shape != (lead + d, lead + d):
+        return False
+    return (close(cm[lead:, lead:], m, OTOL, 0.0) and close(cm[:lead, :lead], np.eye(lead), OTOL)
+            and _amax(cm[:lead, lead:]) <= OTOL and _amax(cm[lead:, :lead]) <= OTOL)
+
+
+def _builder_oracle(k, c, out):
+    qs = list(range(c["n"])) if k == "layer" else list(c["qs"])
+    distinct = sorted(set(qs))
+    rows = c["rows"]
+    if rows is not None and len(rows) != len(distinct):
+        return None if out.get("err") == "err:assert" else ("builder-accepts-row-mismatch", f"{len(rows)} rows for {len(distinct)} distinct qubits accepted")
+    if out.get("err"):
+        return ("builder-raises", f"valid request rejected: {out['err']}")
+    if not out["prefix_same"] or not out.get("source_intact", True):
+        return ("builder-existing-ops", "existing operations not left in place")
+    new = out["new"]
+    if sorted(q for _, _, q3 in new for q in q3) != distinct or any(len(o[2]) != 1 for o in new):
+        return ("builder-one-per-qubit", f"new gates on {[o[2] for o in new]}, distinct listed qubits {distinct}")
+    if any(o[0] != out["fname"] for o in new):
+        return ("builder-gate", "a new gate is not the requested gate")
+    key = lambda x: str(Fraction(float(unrat(x))))           # the value that was actually passed (a double)
+    if rows is not None:
+        want = sorted([key(x) for x in r] for r in rows)
+        got = sorted([str(unrat(x)) for x in o[1]] for o in new)
+        if want != got:
+            return ("builder-rows", "parameter rows not used exactly once each")
+    elif out.get("fixed_ok") is False:
+        return ("builder-gate", "a new gate differs from the given gate")
+    if k == "layer":
+        for i, o in enumerate(new):
+            if o[2] != [i] or (rows is not None and [str(unrat(x)) for x in o[1]] != [key(x) for x in rows[i]]):
+                return ("layer-row-i-on-qubit-i", f"position {i}: gate on {o[2]} with parameters {o[1]}")
+        if out["n"] != c["n"]:
+            return ("layer-width", f"layer over {c['n']} qubits is {out['n']} wide")
+    elif out["n"] != max([out.get("old_n", 0)] + [q + 1 for q in distinct]):
+        return ("builder-width", f"circuit of {out.get('old_n', 0)} qubits with gates on {distinct} is {out['n']} wide")
+    return None
+
+
+def _circuit_sentences(src, inv, inv2, ctl, ext, ci, kk, act, mkey, floor, tag=""):
+    """the circuit sentences on five observed circuits (snapshots: width + operations with their qubits);
+    act(snapshot, relabel, width) -> matrix of the snapshot's operations, mkey(op) -> JSON matrix of one operation.
+    Registers wider than WIDE are judged on the touched qubits (order-preserving relabelling)."""
+    import numpy as np
+    # ---- inverse, inverse twice, circuit + inverse
+    wide = src["n"] > WIDE
+    S = sorted(_touched(src, inv, inv2))
+    if not wide or len(S) <= WIDE:
+        rel = {q: i for i, q in enumerate(S)} if wide else None
+        w = len(S) if wide else src["n"]
+        u = act(src, rel, w)
+        if not isinstance(u, str):
+            if inv["n"] != src["n"]:
+                return (tag + "inverse-not-adjoint", f"the inverse of a {src['n']}-qubit circuit has {inv['n']} qubits")
+            ui = act(inv, rel, w)
+            res = _check_inverse(u, ui, floor)
+            if res:
+                return (tag + res[0], res[1])
+            u2 = act(inv2, rel, w)
+            if inv2["n"] != src["n"] or isinstance(u2, str) or not close(u2, u, OTOL, floor):
+                return (tag + "inverse-twice", "inverting twice changed the action")
+            ms = [mnp(mkey(op)) for op in src["ops"]]
+            if all(not isinstance(m, str) and circ.close(m.conj().T @ m, np.eye(m.shape[0]), 1e-9) for m in ms):
+                eye = np.eye(u.shape[0])
+                if not close(ui @ u, eye, 1e-7) or not close(u @ ui, eye, 1e-7):
+                    return (tag + "inverse-append-not-identity", "circuit + inverse does not act as the identity")
+    # ---- controlled
+    if src["ops"]:
+        n1 = ctl["n"]
+        n0 = n1 - 1
+        if ci >= n1 or any(q >= n0 for op in src["ops"] for q in op["qs"]):
+            return (tag + "controlled-width", f"controlled({ci}) circuit of width {n1} cannot hold the control and the shifted circuit")
+        res = None
+        if n1 <= WIDE:
+            u0 = act(src, None, n0)
+            if not isinstance(u0, str):
+                res = _check_controlled_blocks(act(ctl, None, n1), u0, n1, ci, floor)
+        else:
+            shift = lambda q: q + 1 if q >= ci else q
+            S = sorted(_touched(ctl) | {ci} | {shift(q) for q in _touched(src)})
+            if len(S) <= WIDE:
+                rel = {q: i for i, q in enumerate(S)}
+                rc = rel[ci]
+                rel0 = {q: rel[shift(q)] - (1 if rel[shift(q)] > rc else 0) for q in _touched(src)}
+                u0 = act(src, rel0, len(S) - 1)
+                if not isinstance(u0, str):
+                    res = _check_controlled_blocks(act(ctl, rel, len(S)), u0, len(S), rc, floor)
+        if res:
+            return (tag + res[0], res[1])
+    # ---- ancillas
+    cmpops = lambda s: [[o.get("g"), o["qs"], mkey(o)] for o in s["ops"]]
+    new_ops = [[o["qs"], mkey(o)] for o in ext["ops"][len(src["ops"]):]]
+    u = ue = None
+    if ext["n"] <= WIDE:
+        u, ue = act(src, None, src["n"]), act(ext, None, ext["n"])
+    else:
+        u = "err" if any(isinstance(mnp(mkey(o)), str) for o in src["ops"]) else None
+        S = sorted(_touched(src, ext))
+        if u is None and len(S) <= WIDE and ext["n"] == src["n"] + kk:
+            rel = {q: i for i, q in enumerate(S)}
+            lo = len([q for q in S if q < src["n"]])
+            us, ues = act(src, rel, lo), act(ext, rel, len(S))
+            if not isinstance(us, str) and (isinstance(ues, str) or not close(ues, np.kron(us, np.eye(2 ** (len(S) - lo))), OTOL, floor)):
+                return (tag + "ancilla-action", "extended circuit does not act as U ⊗ 1 on the touched qubits")
+    res = _check_ancilla(src["n"], cmpops(src), ext["n"], cmpops(ext), kk, u, ue, new_ops, floor)
+    if res:
+        return (tag + res[0], res[1])
+    return None
+
+
 def oracle(c, out):
     """the property's own sentences on the implementation's outputs (numpy / plain Python only)"""
     import numpy as np
@@ -591,13 +1731,23 @@ def oracle(c, out):
         frac = spec_has_fractional(c["g"])
         if frac:
             return None
-        if isinstance(dm, str) or not close(dm, m.conj().T):
+        if isinstance(dm, str) or not close(dm, m.conj().T, OTOL, 0.0):
             return ("gate-dagger-not-adjoint", "the dagger's matrix is not the conjugate transpose of the gate's matrix")
         d = m.shape[0]
-        blk = np.eye(2 * d, dtype=complex)
-        blk[d:, d:] = m
-        if isinstance(cm, str) or not close(cm, blk):
+        if not _block_diag_check(cm, m, d):
             return ("gate-controlled-not-block", "controlled(1).matrix is not diag(1, M)")
+        if out.get("again_same") is False:
+            return ("gate-second-request-differs", "asking the same gate for its dagger / controlled version again gave another gate")
+        if "dd_m" in out:
+            if not close(mnp(out["again_dagger_m"]), m.conj().T, OTOL, 0.0):
+                return ("gate-dagger-not-adjoint", "the dagger handed out the second time is not the conjugate transpose")
+            if not close(mnp(out["dd_m"]), m, OTOL, 0.0):
+                return ("gate-dagger-twice", "dagger of the dagger does not have the gate's matrix")
+            for key, what in (("cd_m", "controlled(1).dagger"), ("dc_m", "dagger.controlled(1)")):
+                if not _block_diag_check(mnp(out[key]), m.conj().T, d):
+                    return ("gate-controlled-dagger-order", f"{what}.matrix is not diag(1, M^H)")
+            if out["nq_c2"] != out["nq"] + 2 or not _block_diag_check(mnp(out["c2_m"]), m, 3 * d):
+                return ("gate-controlled-not-block", "controlled(2).matrix is not diag(1, 1, 1, M)")
         return None
     if k == "inverse":
         if not out.get("source_intact", True):
@@ -607,10 +1757,12 @@ def oracle(c, out):
         u, ui = mnp(out["u"]), mnp(out["u_inv"])
         if isinstance(u, str):
             return None  # ill-formed or empty circuit: no action to speak of
-        if isinstance(ui, str) or not close(ui, u.conj().T):
-            return ("inverse-not-adjoint", "to_unitary(inverse) is not the conjugate transpose of to_unitary(circuit)")
+        fl = out.get("floor", 1.0)
+        res = _check_inverse(u, ui, fl)
+        if res:
+            return res
         u2 = mnp(out["u_inv2"])
-        if isinstance(u2, str) or not close(u2, u):
+        if isinstance(u2, str) or not close(u2, u, OTOL, fl):
             return ("inverse-twice", "inverting twice changed the action")
         if out["gates_unitary"]:
             eye = np.eye(u.shape[0])
@@ -625,94 +1777,102 @@ def oracle(c, out):
         o, t, ci = out["orig"], out["ctl"], c["ci"]
         if any(spec_has_fractional(op["g"]) for op in c["circ"]["ops"]) or c.get("malformed"):
             return None
-        uc = mnp(out["u_ctl"])
-        if not o["ops"]:
-            return None
         ms = [mnp(m) for m in out["gate_ms"]]
         if any(isinstance(m, str) for m in ms):
             return None
-        n1 = t["n"]
-        n0 = n1 - 1
-        if ci >= n1 or any(q >= n0 for _, qs in o["ops"] for q in qs):
-            return ("controlled-width", f"controlled({ci}) circuit of width {n1} cannot hold the control and the shifted circuit")
-        if isinstance(uc, str):
-            return ("controlled-raises", "to_unitary of the controlled circuit raised for a well-formed circuit")
-        u0 = np.eye(2 ** n0, dtype=complex)
-        for m, (_, qs) in zip(ms, o["ops"]):
-            u0 = circ.embed_reference(m, qs, n0) @ u0
-        exp = np.zeros((2 ** n1, 2 ** n1), dtype=complex)
-        rest = [q for q in range(n1) if q != ci]
-        for x in range(2 ** n1):
-            xb = [(x >> (n1 - 1 - q)) & 1 for q in range(n1)]
-            xr = 0
-            for q in rest:
-                xr = 2 * xr + xb[q]
-            for y in range(2 ** n1):
-                yb = [(y >> (n1 - 1 - q)) & 1 for q in range(n1)]
-                if xb[ci] != yb[ci]:
-                    continue
-                yr = 0
-                for q in rest:
-                    yr = 2 * yr + yb[q]
-                exp[x, y] = u0[xr, yr] if xb[ci] == 1 else (1.0 if xr == yr else 0.0)
-        if not close(uc, exp):
-            return ("controlled-action", f"controlled({ci}) is not identity-on-0 / circuit-on-1 with indices >= {ci} shifted")
-        return None
+        snap = {"n": o["n"], "ops": [{"qs": qs, "mi": i} for i, (_, qs) in enumerate(o["ops"])]}
+        return _check_controlled([qs for _, qs in o["ops"]], t["n"], ci, lambda n1: mnp(out["u_ctl"]),
+                                 lambda n0: _action(snap, ms, None, n0), out.get("floor", 1.0))
     if k == "ancilla":
         if not out.get("source_intact", True):
             return ("ancilla-mutates", "add_ancilla_register modified its circuit")
         o, e, kk = out["orig"], out["ext"], c["k"]
-        if e["n"] != o["n"] + kk:
-            return ("ancilla-width", f"{o['n']} qubits + {kk} ancillas gave {e['n']} qubits")
-        if e["ops"][:len(o["ops"])] != o["ops"]:
-            return ("ancilla-prefix", "existing operations were changed")
         if c.get("malformed"):
+            if e["n"] != o["n"] + kk:
+                return ("ancilla-width", f"{o['n']} qubits + {kk} ancillas gave {e['n']} qubits")
             return None
-        u, ue = mnp(out["u"]), mnp(out["u_ext"])
-        if isinstance(u, str):
-            return None
-        if isinstance(ue, str) or not close(ue, np.kron(u, np.eye(2 ** kk))):
-            return ("ancilla-action", "extended circuit does not act as U ⊗ 1")
-        return None
+        ue = out.get("u_ext")
+        return _check_ancilla(o["n"], o["ops"], e["n"], e["ops"], kk, mnp(out["u"]), None if ue is None else mnp(ue),
+                              out.get("new_ops", []) if "new_ops" in out else [], out.get("floor", 1.0))
     if k in ("apply", "layer"):
-        qs = list(range(c["n"])) if k == "layer" else list(c["qs"])
-        distinct = sorted(set(qs))
-        rows = c["rows"]
-        if rows is not None and len(rows) != len(distinct):
-            return None if out.get("err") == "err:assert" else ("builder-accepts-row-mismatch", f"{len(rows)} rows for {len(distinct)} distinct qubits accepted")
-        if out.get("err"):
-            return ("builder-raises", f"valid request rejected: {out['err']}")
-        if not out["prefix_same"] or not out.get("source_intact", True):
-            return ("builder-existing-ops", "existing operations not left in place")
-        new = out["new"]
-        if sorted(q for _, _, q3 in new for q in q3) != distinct or any(len(o[2]) != 1 for o in new):
-            return ("builder-one-per-qubit", f"new gates on {[o[2] for o in new]}, distinct listed qubits {distinct}")
-        if any(o[0] != out["fname"] for o in new):
-            return ("builder-gate", "a new gate is not the requested gate")
-        if rows is not None:
-            want = sorted([str(unrat(x)) for x in r] for r in rows)
-            got = sorted([str(unrat(x)) for x in o[1]] for o in new)
-            if want != got:
-                return ("builder-rows", "parameter rows not used exactly once each")
-        elif out.get("fixed_ok") is False:
-            return ("builder-gate", "a new gate differs from the given gate")
-        if k == "layer":
-            for i, o in enumerate(new):
-                if o[2] != [i] or (rows is not None and [str(unrat(x)) for x in o[1]] != [str(unrat(x)) for x in rows[i]]):
-                    return ("layer-row-i-on-qubit-i", f"position {i}: gate on {o[2]} with parameters {o[1]}")
-            if out["n"] != c["n"]:
-                return ("layer-width", f"layer over {c['n']} qubits is {out['n']} wide")
+        return _builder_oracle(k, c, out)
+    if k == "bsession":
+        for i, (st, rec) in enumerate(zip(c["steps"], out["steps"])):
+            if rec["op"] in ("apply", "layer"):
+                res = _builder_oracle(rec["op"], st, rec)
+                if res:
+                    return (res[0], f"call {i} of a session on one base circuit ({st.get('how', 'first call')}): {res[1]}")
+        return None
+    if k == "session":
+        mats = [mnp(m) for m in out["mats"]]
+        act = lambda s, rel, w: _action(s, mats, rel, w)
+        for i, rec in enumerate(out["steps"]):
+            op = rec["op"]
+            if op not in ("inverse", "controlled", "ancilla"):
+                continue
+            where = f"call {i} ({op}) of a session on long-lived circuits: "
+            if not rec["intact"]:
+                return (op + "-mutates", where + "the call modified its circuit")
+            src, res = rec["src"], rec["res"]
+            fl = floor_of([mats[o["mi"]] for o in src["ops"]])
+            u = act(src, None, None)
+            r = None
+            if op == "inverse":
+                if not isinstance(u, str):
+                    r = _check_inverse(u, act(res, None, None) if res["n"] == src["n"] else "err", fl)
+            elif op == "controlled":
+                r = _check_controlled([o["qs"] for o in src["ops"]], res["n"], rec["ci"], lambda n1: act(res, None, None),
+                                      lambda n0: act(src, None, n0), fl)
+            else:
+                cmpops = lambda s: [[o["g"], o["qs"], out["mats"][o["mi"]]] for o in s["ops"]]
+                new_ops = [[o["qs"], out["mats"][o["mi"]]] for o in res["ops"][len(src["ops"]):]]
+                r = _check_ancilla(src["n"], cmpops(src), res["n"], cmpops(res), rec["k"], u,
+                                   act(res, None, None) if res["n"] <= WIDE else None, new_ops, fl)
+            if r:
+                return (r[0], where + r[1])
+        return None
+    if k == "wide":
+        if not out["intact"]:
+            return ("inverse-mutates", "a circuit-level construction modified its circuit")
+        mats = [mnp(m) for m in out["mats"]]
+        act = lambda s, rel, w: _action(s, mats, rel, w)
+        fl = floor_of([mats[o["mi"]] for o in out["src"]["ops"]])
+        return _circuit_sentences(out["src"], out["inv"], out["inv2"], out["ctl"], out["ext"], c["ci"], c["k"], act,
+                                  lambda o: out["mats"][o["mi"]], fl)
+    if k == "symb":
+        if not out["intact"]:
+            return ("inverse-mutates", "a circuit-level construction modified its circuit")
+        for path in ("subs", "bind", "u"):
+            if path == "u":
+                # whole-circuit path: the matrices of to_unitary() where they were materialised
+                names = ("src", "inv", "inv2", "ctl", "ext")
+                us = {nm: (mnp(out[nm]["u"]) if "u" in out[nm] else None) for nm in names}
+                u = us["src"]
+                if u is None:
+                    continue
+                fl = floor_of([mnp(o["subs"]) for o in out["src"]["ops"]])
+                if us["inv"] is not None:
+                    r = _check_inverse(u, us["inv"], fl)
+                    if r:
+                        return ("sym-" + r[0], "to_unitary() of a symbolic circuit at real values: " + r[1])
+                if us["inv2"] is not None and not close(us["inv2"], u, OTOL, fl):
+                    return ("sym-inverse-twice", "to_unitary() of a symbolic circuit at real values: inverting twice changed the action")
+                if us["ctl"] is not None and out["ctl"]["n"] - 1 == out["src"]["n"] and out["ci"] < out["ctl"]["n"]:
+                    r = _check_controlled_blocks(us["ctl"], u, out["ctl"]["n"], out["ci"], fl)
+                    if r:
+                        return ("sym-" + r[0], "to_unitary() of a symbolic circuit at real values: " + r[1])
+                if us["ext"] is not None and out["ext"]["n"] == out["src"]["n"] + c["k"] and \
+                        not close(us["ext"], np.kron(u, np.eye(2 ** c["k"])), OTOL, fl):
+                    return ("sym-ancilla-action", "to_unitary() of a symbolic circuit at real values: extended circuit is not U ⊗ 1")
+                continue
+            act = lambda s, rel, w, path=path: _action(s, None, rel, w, key=path)
+            fl = floor_of([mnp(o[path]) for o in out["src"]["ops"]])
+            r = _circuit_sentences(out["src"], out["inv"], out["inv2"], out["ctl"], out["ext"], out["ci"], c["k"], act,
+                                   lambda o, path=path: o[path], fl, "sym-")
+            if r:
+                return (r[0], f"symbolic circuit evaluated at real values through {'gate.matrix.subs' if path == 'subs' else 'gate.bind'}: {r[1]}")
         return None
     return None
-
-
-def spec_has_fractional(spec):
-    if "power" in spec:
-        return unrat(spec["e"]).denominator != 1 or spec_has_fractional(spec["power"])
-    for k in ("controlled", "dagger", "exp"):
-        if k in spec:
-            return spec_has_fractional(spec[k])
-    return False
 
 
 def distribution(cases, outs):
@@ -721,6 +1881,9 @@ def distribution(cases, outs):
     widths = collections.Counter()
     ctl_pos = collections.Counter()
     kinds_under = collections.Counter()
+    session_steps = collections.Counter()
+    siblings = collections.Counter()
+    inputs = collections.Counter()
     rejected = 0
     modelled = 0
     maxlayer = 0
@@ -729,7 +1892,7 @@ def distribution(cases, outs):
         k = c["kind"]
         if k == "gate":
             depth[spec_depth(c["g"])] += 1
-        if k in ("inverse", "controlled", "ancilla"):
+        if k in ("inverse", "controlled", "ancilla", "wide"):
             widths[c["circ"]["n"] or "by-ops"] += 1
             for op in c["circ"]["ops"]:
                 for key in ("controlled", "dagger", "power", "exp", "custom"):
@@ -743,9 +1906,19 @@ def distribution(cases, outs):
             rejected += 1
         if k == "layer":
             maxlayer = max(maxlayer, c["n"])
-        if k == "apply" and len(set(c["qs"])) != len(c["qs"]):
-            dup += 1
+        if k == "apply":
+            inputs[c["input"]] += 1
+            if len(set(c["qs"])) != len(c["qs"]):
+                dup += 1
+        if k == "session":
+            siblings[c.get("sibling", "?")] += 1
+            for s in c["steps"]:
+                session_steps[s["op"] + ("@last" if s.get("on") == "last" else "")] += 1
+        if k == "bsession":
+            for s in c["steps"]:
+                session_steps["builder:" + s.get("how", s["op"])] += 1
     return {"gate_chain_depths": dict(depth), "declared_widths": {str(k): v for k, v in widths.items()},
             "control_positions": dict(ctl_pos), "wrappers_in_circuits": dict(kinds_under),
             "cases_with_matrix_comparison": modelled, "cases_with_a_rejection": rejected,
-            "largest_layer": maxlayer, "apply_with_duplicates": dup}
+            "largest_layer": maxlayer, "apply_with_duplicates": dup, "apply_input_types": dict(inputs),
+            "session_steps": dict(session_steps), "session_siblings": dict(siblings)}
